@@ -57,18 +57,16 @@ structure Params where
   terminateClosesTx  : Bool      -- true = before d24e630: `terminate` closes the swapped-out tx channel
   errChBuffered      : Bool      -- 4f747d8: `make(chan error, 1)`
   closeRepaired      : Bool      -- 9ada762: client-level `closed` flag, nil-tolerant `Close`
-  recheckAfterDial   : Bool      -- NOT in the code: proposed patch (reconnect re-checks `c.closed` after dialing)
+  recheckAfterDial   : Bool      -- 9b690e3: `reconnect` re-checks `c.closed` after installing the new connection
+  terminateBeforeErr : Bool      -- 2c3eae7: `writeloop` terminates the connection BEFORE `req.err <- err`
   cleanNeedsSettled  : Bool      -- not about the code: the ghost `clean` requires a settled connection (see `settled`)
   deriving Repr, DecidableEq, Inhabited
 
 /-- the code as it is now. -/
 def current : Params :=
   { recvCheckTearsDown := true, reuseDeadConn := false, terminateClosesTx := false,
-    errChBuffered := true, closeRepaired := true, recheckAfterDial := false,
-    cleanNeedsSettled := true }
-
-/-- the code with the proposed patch. -/
-def patched : Params := { current with recheckAfterDial := true }
+    errChBuffered := true, closeRepaired := true, recheckAfterDial := true,
+    terminateBeforeErr := true, cleanNeedsSettled := true }
 
 /-- readloop. `r2c`/`r2s`: holds a decoded response (colour) before the `rx` hand-off.
     `rtA1`/`rtA2`: `Recv` failed (retryable: io.EOF, io.ErrClosedPipe / fatal: anything else), about to
@@ -78,10 +76,13 @@ inductive RP where
   deriving Repr, DecidableEq, Inhabited
 
 /-- writeloop. `wc` loop condition, `ws` in the select, `w1x` in `Send` with a message of colour x,
-    `w2xy` `Send` failed with class y (r retryable / f fatal), before `req.err <- err`,
-    `wtA1`/`wtA2`, `wtB` terminate, `wEnd` returned. -/
+    `w2xy`: `Send` failed with class y (r retryable / f fatal), about to `req.err <- err; close(req.err)`.
+    Since 2c3eae7 the failed `Send` is followed by `terminate` first (`wnAxy` about to cancel, `wnBxy`
+    about to swap tx and close the stream), then `w2xy`, then return. Before: `w2xy`, then
+    `wtA1`/`wtA2` (cancel), `wtB`. `wEnd`: returned. -/
 inductive WP where
   | wc | ws | w1c | w1s | w2cr | w2cf | w2sr | w2sf | wtA1 | wtA2 | wtB | wEnd
+  | wnAcr | wnAcf | wnAsr | wnAsf | wnBcr | wnBcf | wnBsr | wnBsf
   deriving Repr, DecidableEq, Inhabited
 
 /-- the caller holding the mutex (`doRountrip` → `reconnect` / `roundtrip` → `send` / `recv`). -/
@@ -177,13 +178,14 @@ def qHasStale (q : Q) : Bool := q == 2 || q == 3
 def qHasCur (q : Q) : Bool := q == 1 || q == 3
 
 def wRecol : WP → WP
-  | .w1c => .w1s | .w2cr => .w2sr | .w2cf => .w2sf | w => w
+  | .w1c => .w1s | .w2cr => .w2sr | .w2cf => .w2sf | .wnAcr => .wnAsr | .wnAcf => .wnAsf
+  | .wnBcr => .wnBsr | .wnBcf => .wnBsf | w => w
 def rRecol : RP → RP
   | .r2c => .r2s | r => r
 def wHasStale : WP → Bool
-  | .w1s | .w2sr | .w2sf => true | _ => false
+  | .w1s | .w2sr | .w2sf | .wnAsr | .wnAsf | .wnBsr | .wnBsf => true | _ => false
 def wHasCur : WP → Bool
-  | .w1c | .w2cr | .w2cf => true | _ => false
+  | .w1c | .w2cr | .w2cf | .wnAcr | .wnAcf | .wnBcr | .wnBcf => true | _ => false
 
 def hasStale (s : St) : Bool :=
   wHasStale s.wp || qHasStale s.pend || qHasStale s.infl || s.rp == .r2s
@@ -227,11 +229,18 @@ def stepR (p : Params) (s : St) : List St :=
   | .rtB => [{ swapTx p s with netClosed := true, rp := .rEnd }]
   | .rEnd => []
 
+/-- where the write loop goes when `Send` has failed with class `cls` on a message of the given colour. -/
+def sendFailed (p : Params) (cur : Bool) (cls : Nat) : WP :=
+  if p.terminateBeforeErr then
+    (if cur then (if cls = 1 then .wnAcr else .wnAcf) else (if cls = 1 then .wnAsr else .wnAsf))
+  else
+    (if cur then (if cls = 1 then .w2cr else .w2cf) else (if cls = 1 then .w2sr else .w2sf))
+
 def stepW (p : Params) (s : St) : List St :=
   if !s.has then [] else
   let failW (cur : Bool) (cls : Nat) : List St :=
     -- `req.err <- err; close(req.err)` then terminate
-    let next : WP := if cls = 1 then .wtA1 else .wtA2
+    let next : WP := if p.terminateBeforeErr then .wEnd else if cls = 1 then .wtA1 else .wtA2
     if p.errChBuffered then
       [{ s with wp := next, errCh := if cur ∧ s.errCh = 0 then cls else s.errCh }]
     else if cur ∧ s.kp = .k4 then
@@ -240,8 +249,8 @@ def stepW (p : Params) (s : St) : List St :=
   match s.wp with
   | .wc => [if s.closed then { s with wp := .wEnd } else { s with wp := .ws }]
   | .ws => if s.cause ≠ 0 ∨ s.txClosed then [{ s with wp := .wEnd }] else []
-  | .w1c => if s.netClosed then [{ s with wp := .w2cr }] else []
-  | .w1s => if s.netClosed then [{ s with wp := .w2sr }] else []
+  | .w1c => if s.netClosed then [{ s with wp := sendFailed p true 1 }] else []
+  | .w1s => if s.netClosed then [{ s with wp := sendFailed p false 1 }] else []
   | .w2cr => failW true 1
   | .w2cf => failW true 2
   | .w2sr => failW false 1
@@ -249,6 +258,14 @@ def stepW (p : Params) (s : St) : List St :=
   | .wtA1 => [{ setCause s 1 with wp := .wtB }]
   | .wtA2 => [{ setCause s 2 with wp := .wtB }]
   | .wtB => [{ swapTx p s with netClosed := true, wp := .wEnd }]
+  | .wnAcr => [{ setCause s 1 with wp := .wnBcr }]
+  | .wnAcf => [{ setCause s 2 with wp := .wnBcf }]
+  | .wnAsr => [{ setCause s 1 with wp := .wnBsr }]
+  | .wnAsf => [{ setCause s 2 with wp := .wnBsf }]
+  | .wnBcr => [{ swapTx p s with netClosed := true, wp := .w2cr }]
+  | .wnBcf => [{ swapTx p s with netClosed := true, wp := .w2cf }]
+  | .wnBsr => [{ swapTx p s with netClosed := true, wp := .w2sr }]
+  | .wnBsf => [{ swapTx p s with netClosed := true, wp := .w2sf }]
   | .wEnd => []
 
 /-- the outcomes of `checkAvailable(ctx)` as error classes (`none` = available). -/
@@ -333,10 +350,11 @@ def stepC (p : Params) (s : St) : List St :=
 def stepInt (p : Params) (s : St) : List St :=
   stepK p s ++ stepR p s ++ stepW p s ++ stepC p s
 
-/-- no connection goroutine is between detecting an I/O error and cancelling the connection context. -/
-def settled (s : St) : Bool :=
-  !(s.rp == .rtA1 || s.rp == .rtA2 || s.wp == .w2cr || s.wp == .w2cf || s.wp == .w2sr || s.wp == .w2sf
-    || s.wp == .wtA1 || s.wp == .wtA2)
+/-- the read loop is not between a failed `Recv` and the `cancel` of its `terminate`. (A call that
+    starts inside that window overlaps the detection of the fault: it can still find the connection
+    live and then fail with the read error. Since 2c3eae7 there is no such window on the write side
+    that a later call could fall into: the write loop cancels before it reports.) -/
+def settled (s : St) : Bool := !(s.rp == .rtA1 || s.rp == .rtA2)
 
 def kActive (s : St) : Bool := !(s.kp == .idle || s.kp == .retOk || s.kp == .retErr)
 
@@ -380,9 +398,9 @@ def envReadFault (s : St) (cls : Nat) : List St :=
   if s.has ∧ s.rp = .r1 then [{ s with rp := if cls = 1 then .rtA1 else .rtA2 }] else []
 
 /-- the pending write fails (also: short write). -/
-def envWriteFault (s : St) (cls : Nat) : List St :=
-  if s.has ∧ s.wp = .w1c then [{ s with wp := if cls = 1 then .w2cr else .w2cf }]
-  else if s.has ∧ s.wp = .w1s then [{ s with wp := if cls = 1 then .w2sr else .w2sf }]
+def envWriteFault (p : Params) (s : St) (cls : Nat) : List St :=
+  if s.has ∧ s.wp = .w1c then [{ s with wp := sendFailed p true cls }]
+  else if s.has ∧ s.wp = .w1s then [{ s with wp := sendFailed p false cls }]
   else []
 
 def envDialFail (s : St) : List St :=
@@ -392,7 +410,7 @@ def envDialFail (s : St) : List St :=
 def stepEnv (p : Params) (s : St) : List St :=
   let dirty (l : List St) : List St := l.map fun t => { t with clean := false }
   envStart p s ++ envCancel s ++ envClose p s ++ envAnswer s ++ envWritten s
-  ++ (dirty (envReadFault s 1 ++ envReadFault s 2 ++ envWriteFault s 1 ++ envWriteFault s 2 ++ envDialFail s))
+  ++ (dirty (envReadFault s 1 ++ envReadFault s 2 ++ envWriteFault p s 1 ++ envWriteFault p s 2 ++ envDialFail s))
 
 /-- FUSION OF NO-OP STEPS. A `cancel` on an already cancelled context, a swap+close on an already
     swapped and closed connection, and the loop test `!c.closed.Load()` once `closed` is set, change
@@ -419,8 +437,19 @@ def norm1 (p : Params) (s : St) : St :=
     -- the select can only take `<-c.ctx.Done()`: no caller holds or can still load the channel
     | .ws => if s.cause != 0 && s.kp != .k2 && s.kp != .k3o then .wEnd else .ws
     -- the error of a message whose sender has left goes into a buffered channel nobody reads
-    | .w2sr => if p.errChBuffered then (if s.cause != 0 then (if dead then .wEnd else .wtB) else .wtA1) else .w2sr
-    | .w2sf => if p.errChBuffered then (if s.cause != 0 then (if dead then .wEnd else .wtB) else .wtA2) else .w2sf
+    | .w2sr => if !p.errChBuffered then .w2sr else if p.terminateBeforeErr then .wEnd
+               else (if s.cause != 0 then (if dead then .wEnd else .wtB) else .wtA1)
+    | .w2sf => if !p.errChBuffered then .w2sf else if p.terminateBeforeErr then .wEnd
+               else (if s.cause != 0 then (if dead then .wEnd else .wtB) else .wtA2)
+    | .wnAcr => if s.cause != 0 then (if dead then .w2cr else .wnBcr) else .wnAcr
+    | .wnAcf => if s.cause != 0 then (if dead then .w2cf else .wnBcf) else .wnAcf
+    | .wnBcr => if dead then .w2cr else .wnBcr
+    | .wnBcf => if dead then .w2cf else .wnBcf
+    -- a stale message: the report that follows goes to a channel nobody reads (if buffered)
+    | .wnAsr => if s.cause != 0 then (if dead then (if p.errChBuffered then .wEnd else .w2sr) else .wnBsr) else .wnAsr
+    | .wnAsf => if s.cause != 0 then (if dead then (if p.errChBuffered then .wEnd else .w2sf) else .wnBsf) else .wnAsf
+    | .wnBsr => if dead then (if p.errChBuffered then .wEnd else .w2sr) else .wnBsr
+    | .wnBsf => if dead then (if p.errChBuffered then .wEnd else .w2sf) else .wnBsf
     | w => w
   let kp := match s.kp with
     | .rc1 => if s.cause != 0 then (if dead then .rc4 else .rc2) else .rc1
@@ -435,14 +464,10 @@ def norm1 (p : Params) (s : St) : St :=
     change) and whether `kp` is one of `k2`, `k3o`, `k6` (which its own rewriting of `kp` never changes). -/
 def norm (p : Params) (s : St) : St := norm1 p s
 
-def stepAll (p : Params) (s : St) : List St := (stepInt p s ++ stepEnv p s).map (norm p)
-
-def step (p : Params) (s : St) : List St := if s.raced then [] else stepAll p s
+/-- successors. -/
+def step (p : Params) (s : St) : List St := (stepInt p s ++ stepEnv p s).map (norm p)
 
 def sys (p : Params) : Sys St := { init := init, step := step p }
-
-/-- the system without the cut at `raced` (used for the witness that the race does leak goroutines). -/
-def sysAll (p : Params) : Sys St := { init := init, step := stepAll p }
 
 /-! ### bad states -/
 
@@ -475,13 +500,11 @@ def badStuck (p : Params) (s : St) : Bool :=
     && !connEnded s && quiescent p s
 def badHandoff (s : St) : Bool := s.kp == .rc4 && s.has && !handoffOk s
 
-/-- everything that must never happen, except that a goroutine leak is tolerated when a connection
-    was installed after `Close()` had set `c.closed` (`raced`) — see `badFull`. -/
-def badPartial (p : Params) (s : St) : Bool :=
+/-- everything that must never happen. `raced` (a connection installed although `Close()` had already
+    set `c.closed`, and not closed again by `reconnect`) can only be set without `recheckAfterDial`. -/
+def bad (p : Params) (s : St) : Bool :=
   badStale s || badReuse s || badOverflow s || badPanic s || badTx s || badAfterClose s
-    || badRecover s || badHang p s || badHandoff s || (badStuck p s && !s.raced)
-
-def badFull (p : Params) (s : St) : Bool := badPartial p s || badStuck p s || s.raced
+    || badRecover s || badHang p s || badHandoff s || badStuck p s || s.raced
 
 /-! ### coding -/
 
@@ -491,10 +514,12 @@ def RP.ofN : Nat → RP
   | 0 => .r0 | 1 => .r1 | 2 => .r2c | 3 => .r2s | 4 => .rtA1 | 5 => .rtA2 | 6 => .rtB | _ => .rEnd
 def WP.toN : WP → Nat
   | .wc => 0 | .ws => 1 | .w1c => 2 | .w1s => 3 | .w2cr => 4 | .w2cf => 5 | .w2sr => 6 | .w2sf => 7
-  | .wtA1 => 8 | .wtA2 => 9 | .wtB => 10 | .wEnd => 11
+  | .wtA1 => 8 | .wtA2 => 9 | .wtB => 10 | .wEnd => 11 | .wnAcr => 12 | .wnAcf => 13 | .wnAsr => 14
+  | .wnAsf => 15 | .wnBcr => 16 | .wnBcf => 17 | .wnBsr => 18 | .wnBsf => 19
 def WP.ofN : Nat → WP
   | 0 => .wc | 1 => .ws | 2 => .w1c | 3 => .w1s | 4 => .w2cr | 5 => .w2cf | 6 => .w2sr | 7 => .w2sf
-  | 8 => .wtA1 | 9 => .wtA2 | 10 => .wtB | _ => .wEnd
+  | 8 => .wtA1 | 9 => .wtA2 | 10 => .wtB | 12 => .wnAcr | 13 => .wnAcf | 14 => .wnAsr | 15 => .wnAsf
+  | 16 => .wnBcr | 17 => .wnBcf | 18 => .wnBsr | 19 => .wnBsf | _ => .wEnd
 def KP.toN : KP → Nat
   | .idle => 0 | .k0 => 1 | .k0b => 2 | .rc0 => 3 | .rc1 => 4 | .rc2 => 5 | .rc4 => 6 | .rc5 => 7
   | .k1 => 8 | .k2 => 9 | .k3o => 10 | .k3n => 11 | .k4 => 12 | .k5 => 13 | .k6 => 14
@@ -519,49 +544,49 @@ def code (s : St) : Nat :=
   Nat.add (s.has.toNat)
   (Nat.add (Nat.mul s.rp.toN 2)
   (Nat.add (Nat.mul s.wp.toN 16)
-  (Nat.add (Nat.mul s.closed.toNat 192)
-  (Nat.add (Nat.mul s.cause 384)
-  (Nat.add (Nat.mul s.txNil.toNat 1152)
-  (Nat.add (Nat.mul s.txClosed.toNat 2304)
-  (Nat.add (Nat.mul s.netClosed.toNat 4608)
-  (Nat.add (Nat.mul s.errCh 9216)
-  (Nat.add (Nat.mul s.pend 36864)
-  (Nat.add (Nat.mul s.infl 147456)
-  (Nat.add (Nat.mul s.tainted.toNat 589824)
-  (Nat.add (Nat.mul s.kp.toN 1179648)
-  (Nat.add (Nat.mul s.kres 23592960)
-  (Nat.add (Nat.mul s.retry 70778880)
-  (Nat.add (Nat.mul s.kctx.toNat 283115520)
-  (Nat.add (Nat.mul s.cclosed.toNat 566231040)
-  (Nat.add (Nat.mul s.cp.toN 1132462080)
-  (Nat.add (Nat.mul s.cref.toNat 6794772480)
-  (Nat.add (Nat.mul s.ntx 13589544960)
-  (Nat.add (Nat.mul s.clean.toNat 81537269760)
-  (Nat.add (Nat.mul s.born.toNat 163074539520)
-  (Nat.add (Nat.mul s.raced.toNat 326149079040)
-  (Nat.add (Nat.mul s.stale.toNat 652298158080)
-  (Nat.add (Nat.mul s.reused.toNat 1304596316160)
-  (Nat.add (Nat.mul s.overflow.toNat 2609192632320)
-  (Nat.mul s.panic 5218385264640))))))))))))))))))))))))))
+  (Nat.add (Nat.mul s.closed.toNat 320)
+  (Nat.add (Nat.mul s.cause 640)
+  (Nat.add (Nat.mul s.txNil.toNat 1920)
+  (Nat.add (Nat.mul s.txClosed.toNat 3840)
+  (Nat.add (Nat.mul s.netClosed.toNat 7680)
+  (Nat.add (Nat.mul s.errCh 15360)
+  (Nat.add (Nat.mul s.pend 61440)
+  (Nat.add (Nat.mul s.infl 245760)
+  (Nat.add (Nat.mul s.tainted.toNat 983040)
+  (Nat.add (Nat.mul s.kp.toN 1966080)
+  (Nat.add (Nat.mul s.kres 39321600)
+  (Nat.add (Nat.mul s.retry 117964800)
+  (Nat.add (Nat.mul s.kctx.toNat 471859200)
+  (Nat.add (Nat.mul s.cclosed.toNat 943718400)
+  (Nat.add (Nat.mul s.cp.toN 1887436800)
+  (Nat.add (Nat.mul s.cref.toNat 11324620800)
+  (Nat.add (Nat.mul s.ntx 22649241600)
+  (Nat.add (Nat.mul s.clean.toNat 135895449600)
+  (Nat.add (Nat.mul s.born.toNat 271790899200)
+  (Nat.add (Nat.mul s.raced.toNat 543581798400)
+  (Nat.add (Nat.mul s.stale.toNat 1087163596800)
+  (Nat.add (Nat.mul s.reused.toNat 2174327193600)
+  (Nat.add (Nat.mul s.overflow.toNat 4348654387200)
+  (Nat.mul s.panic 8697308774400))))))))))))))))))))))))))
 
 def decode (n : Nat) : St :=
   { has := Nat.beq (Nat.mod (Nat.div n 1) 2) 1, rp := RP.ofN (Nat.mod (Nat.div n 2) 8),
-    wp := WP.ofN (Nat.mod (Nat.div n 16) 12), closed := Nat.beq (Nat.mod (Nat.div n 192) 2) 1,
-    cause := Nat.mod (Nat.div n 384) 3, txNil := Nat.beq (Nat.mod (Nat.div n 1152) 2) 1,
-    txClosed := Nat.beq (Nat.mod (Nat.div n 2304) 2) 1, netClosed := Nat.beq (Nat.mod (Nat.div n 4608) 2) 1,
-    errCh := Nat.mod (Nat.div n 9216) 4, pend := Nat.mod (Nat.div n 36864) 4,
-    infl := Nat.mod (Nat.div n 147456) 4, tainted := Nat.beq (Nat.mod (Nat.div n 589824) 2) 1,
-    kp := KP.ofN (Nat.mod (Nat.div n 1179648) 20), kres := Nat.mod (Nat.div n 23592960) 3,
-    retry := Nat.mod (Nat.div n 70778880) 4, kctx := Nat.beq (Nat.mod (Nat.div n 283115520) 2) 1,
-    cclosed := Nat.beq (Nat.mod (Nat.div n 566231040) 2) 1, cp := CP.ofN (Nat.mod (Nat.div n 1132462080) 6),
-    cref := Nat.beq (Nat.mod (Nat.div n 6794772480) 2) 1, ntx := Nat.mod (Nat.div n 13589544960) 6,
-    clean := Nat.beq (Nat.mod (Nat.div n 81537269760) 2) 1,
-    born := Nat.beq (Nat.mod (Nat.div n 163074539520) 2) 1,
-    raced := Nat.beq (Nat.mod (Nat.div n 326149079040) 2) 1,
-    stale := Nat.beq (Nat.mod (Nat.div n 652298158080) 2) 1,
-    reused := Nat.beq (Nat.mod (Nat.div n 1304596316160) 2) 1,
-    overflow := Nat.beq (Nat.mod (Nat.div n 2609192632320) 2) 1,
-    panic := Nat.mod (Nat.div n 5218385264640) 3 }
+    wp := WP.ofN (Nat.mod (Nat.div n 16) 20), closed := Nat.beq (Nat.mod (Nat.div n 320) 2) 1,
+    cause := Nat.mod (Nat.div n 640) 3, txNil := Nat.beq (Nat.mod (Nat.div n 1920) 2) 1,
+    txClosed := Nat.beq (Nat.mod (Nat.div n 3840) 2) 1, netClosed := Nat.beq (Nat.mod (Nat.div n 7680) 2) 1,
+    errCh := Nat.mod (Nat.div n 15360) 4, pend := Nat.mod (Nat.div n 61440) 4,
+    infl := Nat.mod (Nat.div n 245760) 4, tainted := Nat.beq (Nat.mod (Nat.div n 983040) 2) 1,
+    kp := KP.ofN (Nat.mod (Nat.div n 1966080) 20), kres := Nat.mod (Nat.div n 39321600) 3,
+    retry := Nat.mod (Nat.div n 117964800) 4, kctx := Nat.beq (Nat.mod (Nat.div n 471859200) 2) 1,
+    cclosed := Nat.beq (Nat.mod (Nat.div n 943718400) 2) 1, cp := CP.ofN (Nat.mod (Nat.div n 1887436800) 6),
+    cref := Nat.beq (Nat.mod (Nat.div n 11324620800) 2) 1, ntx := Nat.mod (Nat.div n 22649241600) 6,
+    clean := Nat.beq (Nat.mod (Nat.div n 135895449600) 2) 1,
+    born := Nat.beq (Nat.mod (Nat.div n 271790899200) 2) 1,
+    raced := Nat.beq (Nat.mod (Nat.div n 543581798400) 2) 1,
+    stale := Nat.beq (Nat.mod (Nat.div n 1087163596800) 2) 1,
+    reused := Nat.beq (Nat.mod (Nat.div n 2174327193600) 2) 1,
+    overflow := Nat.beq (Nat.mod (Nat.div n 4348654387200) 2) 1,
+    panic := Nat.mod (Nat.div n 8697308774400) 3 }
 
 /-- the numeric fields are within their radix (booleans and program counters always are). -/
 def wf (s : St) : Bool :=
@@ -571,7 +596,7 @@ theorem nat_div_eq (a b : Nat) : Nat.div a b = a / b := rfl
 theorem nat_mod_eq (a b : Nat) : Nat.mod a b = a % b := rfl
 theorem toNat_lt2 (b : Bool) : b.toNat < 2 := by cases b <;> decide
 theorem RP.toN_lt (x : RP) : x.toN < 8 := by cases x <;> decide
-theorem WP.toN_lt (x : WP) : x.toN < 12 := by cases x <;> decide
+theorem WP.toN_lt (x : WP) : x.toN < 20 := by cases x <;> decide
 theorem KP.toN_lt (x : KP) : x.toN < 20 := by cases x <;> decide
 theorem CP.toN_lt (x : CP) : x.toN < 6 := by cases x <;> decide
 theorem RP.ofN_toN (x : RP) : RP.ofN x.toN = x := by cases x <;> rfl
@@ -581,112 +606,112 @@ theorem CP.ofN_toN (x : CP) : CP.ofN x.toN = x := by cases x <;> rfl
 
 set_option linter.unusedVariables false in
 theorem fld0 (v0 v1 v2 v3 v4 v5 v6 v7 v8 v9 v10 v11 v12 v13 v14 v15 v16 v17 v18 v19 v20 v21 v22 v23 v24 v25 v26 : Nat)
-    (h0 : v0 < 2) (h1 : v1 < 8) (h2 : v2 < 12) (h3 : v3 < 2) (h4 : v4 < 3) (h5 : v5 < 2) (h6 : v6 < 2) (h7 : v7 < 2) (h8 : v8 < 4) (h9 : v9 < 4) (h10 : v10 < 4) (h11 : v11 < 2) (h12 : v12 < 20) (h13 : v13 < 3) (h14 : v14 < 4) (h15 : v15 < 2) (h16 : v16 < 2) (h17 : v17 < 6) (h18 : v18 < 2) (h19 : v19 < 6) (h20 : v20 < 2) (h21 : v21 < 2) (h22 : v22 < 2) (h23 : v23 < 2) (h24 : v24 < 2) (h25 : v25 < 2) (h26 : v26 < 3) :
-    (v0 + (v1 * 2 + (v2 * 16 + (v3 * 192 + (v4 * 384 + (v5 * 1152 + (v6 * 2304 + (v7 * 4608 + (v8 * 9216 + (v9 * 36864 + (v10 * 147456 + (v11 * 589824 + (v12 * 1179648 + (v13 * 23592960 + (v14 * 70778880 + (v15 * 283115520 + (v16 * 566231040 + (v17 * 1132462080 + (v18 * 6794772480 + (v19 * 13589544960 + (v20 * 81537269760 + (v21 * 163074539520 + (v22 * 326149079040 + (v23 * 652298158080 + (v24 * 1304596316160 + (v25 * 2609192632320 + (v26 * 5218385264640))))))))))))))))))))))))))) / 1 % 2 = v0 := by omega
+    (h0 : v0 < 2) (h1 : v1 < 8) (h2 : v2 < 20) (h3 : v3 < 2) (h4 : v4 < 3) (h5 : v5 < 2) (h6 : v6 < 2) (h7 : v7 < 2) (h8 : v8 < 4) (h9 : v9 < 4) (h10 : v10 < 4) (h11 : v11 < 2) (h12 : v12 < 20) (h13 : v13 < 3) (h14 : v14 < 4) (h15 : v15 < 2) (h16 : v16 < 2) (h17 : v17 < 6) (h18 : v18 < 2) (h19 : v19 < 6) (h20 : v20 < 2) (h21 : v21 < 2) (h22 : v22 < 2) (h23 : v23 < 2) (h24 : v24 < 2) (h25 : v25 < 2) (h26 : v26 < 3) :
+    (v0 + (v1 * 2 + (v2 * 16 + (v3 * 320 + (v4 * 640 + (v5 * 1920 + (v6 * 3840 + (v7 * 7680 + (v8 * 15360 + (v9 * 61440 + (v10 * 245760 + (v11 * 983040 + (v12 * 1966080 + (v13 * 39321600 + (v14 * 117964800 + (v15 * 471859200 + (v16 * 943718400 + (v17 * 1887436800 + (v18 * 11324620800 + (v19 * 22649241600 + (v20 * 135895449600 + (v21 * 271790899200 + (v22 * 543581798400 + (v23 * 1087163596800 + (v24 * 2174327193600 + (v25 * 4348654387200 + (v26 * 8697308774400))))))))))))))))))))))))))) / 1 % 2 = v0 := by omega
 set_option linter.unusedVariables false in
 theorem fld1 (v0 v1 v2 v3 v4 v5 v6 v7 v8 v9 v10 v11 v12 v13 v14 v15 v16 v17 v18 v19 v20 v21 v22 v23 v24 v25 v26 : Nat)
-    (h0 : v0 < 2) (h1 : v1 < 8) (h2 : v2 < 12) (h3 : v3 < 2) (h4 : v4 < 3) (h5 : v5 < 2) (h6 : v6 < 2) (h7 : v7 < 2) (h8 : v8 < 4) (h9 : v9 < 4) (h10 : v10 < 4) (h11 : v11 < 2) (h12 : v12 < 20) (h13 : v13 < 3) (h14 : v14 < 4) (h15 : v15 < 2) (h16 : v16 < 2) (h17 : v17 < 6) (h18 : v18 < 2) (h19 : v19 < 6) (h20 : v20 < 2) (h21 : v21 < 2) (h22 : v22 < 2) (h23 : v23 < 2) (h24 : v24 < 2) (h25 : v25 < 2) (h26 : v26 < 3) :
-    (v0 + (v1 * 2 + (v2 * 16 + (v3 * 192 + (v4 * 384 + (v5 * 1152 + (v6 * 2304 + (v7 * 4608 + (v8 * 9216 + (v9 * 36864 + (v10 * 147456 + (v11 * 589824 + (v12 * 1179648 + (v13 * 23592960 + (v14 * 70778880 + (v15 * 283115520 + (v16 * 566231040 + (v17 * 1132462080 + (v18 * 6794772480 + (v19 * 13589544960 + (v20 * 81537269760 + (v21 * 163074539520 + (v22 * 326149079040 + (v23 * 652298158080 + (v24 * 1304596316160 + (v25 * 2609192632320 + (v26 * 5218385264640))))))))))))))))))))))))))) / 2 % 8 = v1 := by omega
+    (h0 : v0 < 2) (h1 : v1 < 8) (h2 : v2 < 20) (h3 : v3 < 2) (h4 : v4 < 3) (h5 : v5 < 2) (h6 : v6 < 2) (h7 : v7 < 2) (h8 : v8 < 4) (h9 : v9 < 4) (h10 : v10 < 4) (h11 : v11 < 2) (h12 : v12 < 20) (h13 : v13 < 3) (h14 : v14 < 4) (h15 : v15 < 2) (h16 : v16 < 2) (h17 : v17 < 6) (h18 : v18 < 2) (h19 : v19 < 6) (h20 : v20 < 2) (h21 : v21 < 2) (h22 : v22 < 2) (h23 : v23 < 2) (h24 : v24 < 2) (h25 : v25 < 2) (h26 : v26 < 3) :
+    (v0 + (v1 * 2 + (v2 * 16 + (v3 * 320 + (v4 * 640 + (v5 * 1920 + (v6 * 3840 + (v7 * 7680 + (v8 * 15360 + (v9 * 61440 + (v10 * 245760 + (v11 * 983040 + (v12 * 1966080 + (v13 * 39321600 + (v14 * 117964800 + (v15 * 471859200 + (v16 * 943718400 + (v17 * 1887436800 + (v18 * 11324620800 + (v19 * 22649241600 + (v20 * 135895449600 + (v21 * 271790899200 + (v22 * 543581798400 + (v23 * 1087163596800 + (v24 * 2174327193600 + (v25 * 4348654387200 + (v26 * 8697308774400))))))))))))))))))))))))))) / 2 % 8 = v1 := by omega
 set_option linter.unusedVariables false in
 theorem fld2 (v0 v1 v2 v3 v4 v5 v6 v7 v8 v9 v10 v11 v12 v13 v14 v15 v16 v17 v18 v19 v20 v21 v22 v23 v24 v25 v26 : Nat)
-    (h0 : v0 < 2) (h1 : v1 < 8) (h2 : v2 < 12) (h3 : v3 < 2) (h4 : v4 < 3) (h5 : v5 < 2) (h6 : v6 < 2) (h7 : v7 < 2) (h8 : v8 < 4) (h9 : v9 < 4) (h10 : v10 < 4) (h11 : v11 < 2) (h12 : v12 < 20) (h13 : v13 < 3) (h14 : v14 < 4) (h15 : v15 < 2) (h16 : v16 < 2) (h17 : v17 < 6) (h18 : v18 < 2) (h19 : v19 < 6) (h20 : v20 < 2) (h21 : v21 < 2) (h22 : v22 < 2) (h23 : v23 < 2) (h24 : v24 < 2) (h25 : v25 < 2) (h26 : v26 < 3) :
-    (v0 + (v1 * 2 + (v2 * 16 + (v3 * 192 + (v4 * 384 + (v5 * 1152 + (v6 * 2304 + (v7 * 4608 + (v8 * 9216 + (v9 * 36864 + (v10 * 147456 + (v11 * 589824 + (v12 * 1179648 + (v13 * 23592960 + (v14 * 70778880 + (v15 * 283115520 + (v16 * 566231040 + (v17 * 1132462080 + (v18 * 6794772480 + (v19 * 13589544960 + (v20 * 81537269760 + (v21 * 163074539520 + (v22 * 326149079040 + (v23 * 652298158080 + (v24 * 1304596316160 + (v25 * 2609192632320 + (v26 * 5218385264640))))))))))))))))))))))))))) / 16 % 12 = v2 := by omega
+    (h0 : v0 < 2) (h1 : v1 < 8) (h2 : v2 < 20) (h3 : v3 < 2) (h4 : v4 < 3) (h5 : v5 < 2) (h6 : v6 < 2) (h7 : v7 < 2) (h8 : v8 < 4) (h9 : v9 < 4) (h10 : v10 < 4) (h11 : v11 < 2) (h12 : v12 < 20) (h13 : v13 < 3) (h14 : v14 < 4) (h15 : v15 < 2) (h16 : v16 < 2) (h17 : v17 < 6) (h18 : v18 < 2) (h19 : v19 < 6) (h20 : v20 < 2) (h21 : v21 < 2) (h22 : v22 < 2) (h23 : v23 < 2) (h24 : v24 < 2) (h25 : v25 < 2) (h26 : v26 < 3) :
+    (v0 + (v1 * 2 + (v2 * 16 + (v3 * 320 + (v4 * 640 + (v5 * 1920 + (v6 * 3840 + (v7 * 7680 + (v8 * 15360 + (v9 * 61440 + (v10 * 245760 + (v11 * 983040 + (v12 * 1966080 + (v13 * 39321600 + (v14 * 117964800 + (v15 * 471859200 + (v16 * 943718400 + (v17 * 1887436800 + (v18 * 11324620800 + (v19 * 22649241600 + (v20 * 135895449600 + (v21 * 271790899200 + (v22 * 543581798400 + (v23 * 1087163596800 + (v24 * 2174327193600 + (v25 * 4348654387200 + (v26 * 8697308774400))))))))))))))))))))))))))) / 16 % 20 = v2 := by omega
 set_option linter.unusedVariables false in
 theorem fld3 (v0 v1 v2 v3 v4 v5 v6 v7 v8 v9 v10 v11 v12 v13 v14 v15 v16 v17 v18 v19 v20 v21 v22 v23 v24 v25 v26 : Nat)
-    (h0 : v0 < 2) (h1 : v1 < 8) (h2 : v2 < 12) (h3 : v3 < 2) (h4 : v4 < 3) (h5 : v5 < 2) (h6 : v6 < 2) (h7 : v7 < 2) (h8 : v8 < 4) (h9 : v9 < 4) (h10 : v10 < 4) (h11 : v11 < 2) (h12 : v12 < 20) (h13 : v13 < 3) (h14 : v14 < 4) (h15 : v15 < 2) (h16 : v16 < 2) (h17 : v17 < 6) (h18 : v18 < 2) (h19 : v19 < 6) (h20 : v20 < 2) (h21 : v21 < 2) (h22 : v22 < 2) (h23 : v23 < 2) (h24 : v24 < 2) (h25 : v25 < 2) (h26 : v26 < 3) :
-    (v0 + (v1 * 2 + (v2 * 16 + (v3 * 192 + (v4 * 384 + (v5 * 1152 + (v6 * 2304 + (v7 * 4608 + (v8 * 9216 + (v9 * 36864 + (v10 * 147456 + (v11 * 589824 + (v12 * 1179648 + (v13 * 23592960 + (v14 * 70778880 + (v15 * 283115520 + (v16 * 566231040 + (v17 * 1132462080 + (v18 * 6794772480 + (v19 * 13589544960 + (v20 * 81537269760 + (v21 * 163074539520 + (v22 * 326149079040 + (v23 * 652298158080 + (v24 * 1304596316160 + (v25 * 2609192632320 + (v26 * 5218385264640))))))))))))))))))))))))))) / 192 % 2 = v3 := by omega
+    (h0 : v0 < 2) (h1 : v1 < 8) (h2 : v2 < 20) (h3 : v3 < 2) (h4 : v4 < 3) (h5 : v5 < 2) (h6 : v6 < 2) (h7 : v7 < 2) (h8 : v8 < 4) (h9 : v9 < 4) (h10 : v10 < 4) (h11 : v11 < 2) (h12 : v12 < 20) (h13 : v13 < 3) (h14 : v14 < 4) (h15 : v15 < 2) (h16 : v16 < 2) (h17 : v17 < 6) (h18 : v18 < 2) (h19 : v19 < 6) (h20 : v20 < 2) (h21 : v21 < 2) (h22 : v22 < 2) (h23 : v23 < 2) (h24 : v24 < 2) (h25 : v25 < 2) (h26 : v26 < 3) :
+    (v0 + (v1 * 2 + (v2 * 16 + (v3 * 320 + (v4 * 640 + (v5 * 1920 + (v6 * 3840 + (v7 * 7680 + (v8 * 15360 + (v9 * 61440 + (v10 * 245760 + (v11 * 983040 + (v12 * 1966080 + (v13 * 39321600 + (v14 * 117964800 + (v15 * 471859200 + (v16 * 943718400 + (v17 * 1887436800 + (v18 * 11324620800 + (v19 * 22649241600 + (v20 * 135895449600 + (v21 * 271790899200 + (v22 * 543581798400 + (v23 * 1087163596800 + (v24 * 2174327193600 + (v25 * 4348654387200 + (v26 * 8697308774400))))))))))))))))))))))))))) / 320 % 2 = v3 := by omega
 set_option linter.unusedVariables false in
 theorem fld4 (v0 v1 v2 v3 v4 v5 v6 v7 v8 v9 v10 v11 v12 v13 v14 v15 v16 v17 v18 v19 v20 v21 v22 v23 v24 v25 v26 : Nat)
-    (h0 : v0 < 2) (h1 : v1 < 8) (h2 : v2 < 12) (h3 : v3 < 2) (h4 : v4 < 3) (h5 : v5 < 2) (h6 : v6 < 2) (h7 : v7 < 2) (h8 : v8 < 4) (h9 : v9 < 4) (h10 : v10 < 4) (h11 : v11 < 2) (h12 : v12 < 20) (h13 : v13 < 3) (h14 : v14 < 4) (h15 : v15 < 2) (h16 : v16 < 2) (h17 : v17 < 6) (h18 : v18 < 2) (h19 : v19 < 6) (h20 : v20 < 2) (h21 : v21 < 2) (h22 : v22 < 2) (h23 : v23 < 2) (h24 : v24 < 2) (h25 : v25 < 2) (h26 : v26 < 3) :
-    (v0 + (v1 * 2 + (v2 * 16 + (v3 * 192 + (v4 * 384 + (v5 * 1152 + (v6 * 2304 + (v7 * 4608 + (v8 * 9216 + (v9 * 36864 + (v10 * 147456 + (v11 * 589824 + (v12 * 1179648 + (v13 * 23592960 + (v14 * 70778880 + (v15 * 283115520 + (v16 * 566231040 + (v17 * 1132462080 + (v18 * 6794772480 + (v19 * 13589544960 + (v20 * 81537269760 + (v21 * 163074539520 + (v22 * 326149079040 + (v23 * 652298158080 + (v24 * 1304596316160 + (v25 * 2609192632320 + (v26 * 5218385264640))))))))))))))))))))))))))) / 384 % 3 = v4 := by omega
+    (h0 : v0 < 2) (h1 : v1 < 8) (h2 : v2 < 20) (h3 : v3 < 2) (h4 : v4 < 3) (h5 : v5 < 2) (h6 : v6 < 2) (h7 : v7 < 2) (h8 : v8 < 4) (h9 : v9 < 4) (h10 : v10 < 4) (h11 : v11 < 2) (h12 : v12 < 20) (h13 : v13 < 3) (h14 : v14 < 4) (h15 : v15 < 2) (h16 : v16 < 2) (h17 : v17 < 6) (h18 : v18 < 2) (h19 : v19 < 6) (h20 : v20 < 2) (h21 : v21 < 2) (h22 : v22 < 2) (h23 : v23 < 2) (h24 : v24 < 2) (h25 : v25 < 2) (h26 : v26 < 3) :
+    (v0 + (v1 * 2 + (v2 * 16 + (v3 * 320 + (v4 * 640 + (v5 * 1920 + (v6 * 3840 + (v7 * 7680 + (v8 * 15360 + (v9 * 61440 + (v10 * 245760 + (v11 * 983040 + (v12 * 1966080 + (v13 * 39321600 + (v14 * 117964800 + (v15 * 471859200 + (v16 * 943718400 + (v17 * 1887436800 + (v18 * 11324620800 + (v19 * 22649241600 + (v20 * 135895449600 + (v21 * 271790899200 + (v22 * 543581798400 + (v23 * 1087163596800 + (v24 * 2174327193600 + (v25 * 4348654387200 + (v26 * 8697308774400))))))))))))))))))))))))))) / 640 % 3 = v4 := by omega
 set_option linter.unusedVariables false in
 theorem fld5 (v0 v1 v2 v3 v4 v5 v6 v7 v8 v9 v10 v11 v12 v13 v14 v15 v16 v17 v18 v19 v20 v21 v22 v23 v24 v25 v26 : Nat)
-    (h0 : v0 < 2) (h1 : v1 < 8) (h2 : v2 < 12) (h3 : v3 < 2) (h4 : v4 < 3) (h5 : v5 < 2) (h6 : v6 < 2) (h7 : v7 < 2) (h8 : v8 < 4) (h9 : v9 < 4) (h10 : v10 < 4) (h11 : v11 < 2) (h12 : v12 < 20) (h13 : v13 < 3) (h14 : v14 < 4) (h15 : v15 < 2) (h16 : v16 < 2) (h17 : v17 < 6) (h18 : v18 < 2) (h19 : v19 < 6) (h20 : v20 < 2) (h21 : v21 < 2) (h22 : v22 < 2) (h23 : v23 < 2) (h24 : v24 < 2) (h25 : v25 < 2) (h26 : v26 < 3) :
-    (v0 + (v1 * 2 + (v2 * 16 + (v3 * 192 + (v4 * 384 + (v5 * 1152 + (v6 * 2304 + (v7 * 4608 + (v8 * 9216 + (v9 * 36864 + (v10 * 147456 + (v11 * 589824 + (v12 * 1179648 + (v13 * 23592960 + (v14 * 70778880 + (v15 * 283115520 + (v16 * 566231040 + (v17 * 1132462080 + (v18 * 6794772480 + (v19 * 13589544960 + (v20 * 81537269760 + (v21 * 163074539520 + (v22 * 326149079040 + (v23 * 652298158080 + (v24 * 1304596316160 + (v25 * 2609192632320 + (v26 * 5218385264640))))))))))))))))))))))))))) / 1152 % 2 = v5 := by omega
+    (h0 : v0 < 2) (h1 : v1 < 8) (h2 : v2 < 20) (h3 : v3 < 2) (h4 : v4 < 3) (h5 : v5 < 2) (h6 : v6 < 2) (h7 : v7 < 2) (h8 : v8 < 4) (h9 : v9 < 4) (h10 : v10 < 4) (h11 : v11 < 2) (h12 : v12 < 20) (h13 : v13 < 3) (h14 : v14 < 4) (h15 : v15 < 2) (h16 : v16 < 2) (h17 : v17 < 6) (h18 : v18 < 2) (h19 : v19 < 6) (h20 : v20 < 2) (h21 : v21 < 2) (h22 : v22 < 2) (h23 : v23 < 2) (h24 : v24 < 2) (h25 : v25 < 2) (h26 : v26 < 3) :
+    (v0 + (v1 * 2 + (v2 * 16 + (v3 * 320 + (v4 * 640 + (v5 * 1920 + (v6 * 3840 + (v7 * 7680 + (v8 * 15360 + (v9 * 61440 + (v10 * 245760 + (v11 * 983040 + (v12 * 1966080 + (v13 * 39321600 + (v14 * 117964800 + (v15 * 471859200 + (v16 * 943718400 + (v17 * 1887436800 + (v18 * 11324620800 + (v19 * 22649241600 + (v20 * 135895449600 + (v21 * 271790899200 + (v22 * 543581798400 + (v23 * 1087163596800 + (v24 * 2174327193600 + (v25 * 4348654387200 + (v26 * 8697308774400))))))))))))))))))))))))))) / 1920 % 2 = v5 := by omega
 set_option linter.unusedVariables false in
 theorem fld6 (v0 v1 v2 v3 v4 v5 v6 v7 v8 v9 v10 v11 v12 v13 v14 v15 v16 v17 v18 v19 v20 v21 v22 v23 v24 v25 v26 : Nat)
-    (h0 : v0 < 2) (h1 : v1 < 8) (h2 : v2 < 12) (h3 : v3 < 2) (h4 : v4 < 3) (h5 : v5 < 2) (h6 : v6 < 2) (h7 : v7 < 2) (h8 : v8 < 4) (h9 : v9 < 4) (h10 : v10 < 4) (h11 : v11 < 2) (h12 : v12 < 20) (h13 : v13 < 3) (h14 : v14 < 4) (h15 : v15 < 2) (h16 : v16 < 2) (h17 : v17 < 6) (h18 : v18 < 2) (h19 : v19 < 6) (h20 : v20 < 2) (h21 : v21 < 2) (h22 : v22 < 2) (h23 : v23 < 2) (h24 : v24 < 2) (h25 : v25 < 2) (h26 : v26 < 3) :
-    (v0 + (v1 * 2 + (v2 * 16 + (v3 * 192 + (v4 * 384 + (v5 * 1152 + (v6 * 2304 + (v7 * 4608 + (v8 * 9216 + (v9 * 36864 + (v10 * 147456 + (v11 * 589824 + (v12 * 1179648 + (v13 * 23592960 + (v14 * 70778880 + (v15 * 283115520 + (v16 * 566231040 + (v17 * 1132462080 + (v18 * 6794772480 + (v19 * 13589544960 + (v20 * 81537269760 + (v21 * 163074539520 + (v22 * 326149079040 + (v23 * 652298158080 + (v24 * 1304596316160 + (v25 * 2609192632320 + (v26 * 5218385264640))))))))))))))))))))))))))) / 2304 % 2 = v6 := by omega
+    (h0 : v0 < 2) (h1 : v1 < 8) (h2 : v2 < 20) (h3 : v3 < 2) (h4 : v4 < 3) (h5 : v5 < 2) (h6 : v6 < 2) (h7 : v7 < 2) (h8 : v8 < 4) (h9 : v9 < 4) (h10 : v10 < 4) (h11 : v11 < 2) (h12 : v12 < 20) (h13 : v13 < 3) (h14 : v14 < 4) (h15 : v15 < 2) (h16 : v16 < 2) (h17 : v17 < 6) (h18 : v18 < 2) (h19 : v19 < 6) (h20 : v20 < 2) (h21 : v21 < 2) (h22 : v22 < 2) (h23 : v23 < 2) (h24 : v24 < 2) (h25 : v25 < 2) (h26 : v26 < 3) :
+    (v0 + (v1 * 2 + (v2 * 16 + (v3 * 320 + (v4 * 640 + (v5 * 1920 + (v6 * 3840 + (v7 * 7680 + (v8 * 15360 + (v9 * 61440 + (v10 * 245760 + (v11 * 983040 + (v12 * 1966080 + (v13 * 39321600 + (v14 * 117964800 + (v15 * 471859200 + (v16 * 943718400 + (v17 * 1887436800 + (v18 * 11324620800 + (v19 * 22649241600 + (v20 * 135895449600 + (v21 * 271790899200 + (v22 * 543581798400 + (v23 * 1087163596800 + (v24 * 2174327193600 + (v25 * 4348654387200 + (v26 * 8697308774400))))))))))))))))))))))))))) / 3840 % 2 = v6 := by omega
 set_option linter.unusedVariables false in
 theorem fld7 (v0 v1 v2 v3 v4 v5 v6 v7 v8 v9 v10 v11 v12 v13 v14 v15 v16 v17 v18 v19 v20 v21 v22 v23 v24 v25 v26 : Nat)
-    (h0 : v0 < 2) (h1 : v1 < 8) (h2 : v2 < 12) (h3 : v3 < 2) (h4 : v4 < 3) (h5 : v5 < 2) (h6 : v6 < 2) (h7 : v7 < 2) (h8 : v8 < 4) (h9 : v9 < 4) (h10 : v10 < 4) (h11 : v11 < 2) (h12 : v12 < 20) (h13 : v13 < 3) (h14 : v14 < 4) (h15 : v15 < 2) (h16 : v16 < 2) (h17 : v17 < 6) (h18 : v18 < 2) (h19 : v19 < 6) (h20 : v20 < 2) (h21 : v21 < 2) (h22 : v22 < 2) (h23 : v23 < 2) (h24 : v24 < 2) (h25 : v25 < 2) (h26 : v26 < 3) :
-    (v0 + (v1 * 2 + (v2 * 16 + (v3 * 192 + (v4 * 384 + (v5 * 1152 + (v6 * 2304 + (v7 * 4608 + (v8 * 9216 + (v9 * 36864 + (v10 * 147456 + (v11 * 589824 + (v12 * 1179648 + (v13 * 23592960 + (v14 * 70778880 + (v15 * 283115520 + (v16 * 566231040 + (v17 * 1132462080 + (v18 * 6794772480 + (v19 * 13589544960 + (v20 * 81537269760 + (v21 * 163074539520 + (v22 * 326149079040 + (v23 * 652298158080 + (v24 * 1304596316160 + (v25 * 2609192632320 + (v26 * 5218385264640))))))))))))))))))))))))))) / 4608 % 2 = v7 := by omega
+    (h0 : v0 < 2) (h1 : v1 < 8) (h2 : v2 < 20) (h3 : v3 < 2) (h4 : v4 < 3) (h5 : v5 < 2) (h6 : v6 < 2) (h7 : v7 < 2) (h8 : v8 < 4) (h9 : v9 < 4) (h10 : v10 < 4) (h11 : v11 < 2) (h12 : v12 < 20) (h13 : v13 < 3) (h14 : v14 < 4) (h15 : v15 < 2) (h16 : v16 < 2) (h17 : v17 < 6) (h18 : v18 < 2) (h19 : v19 < 6) (h20 : v20 < 2) (h21 : v21 < 2) (h22 : v22 < 2) (h23 : v23 < 2) (h24 : v24 < 2) (h25 : v25 < 2) (h26 : v26 < 3) :
+    (v0 + (v1 * 2 + (v2 * 16 + (v3 * 320 + (v4 * 640 + (v5 * 1920 + (v6 * 3840 + (v7 * 7680 + (v8 * 15360 + (v9 * 61440 + (v10 * 245760 + (v11 * 983040 + (v12 * 1966080 + (v13 * 39321600 + (v14 * 117964800 + (v15 * 471859200 + (v16 * 943718400 + (v17 * 1887436800 + (v18 * 11324620800 + (v19 * 22649241600 + (v20 * 135895449600 + (v21 * 271790899200 + (v22 * 543581798400 + (v23 * 1087163596800 + (v24 * 2174327193600 + (v25 * 4348654387200 + (v26 * 8697308774400))))))))))))))))))))))))))) / 7680 % 2 = v7 := by omega
 set_option linter.unusedVariables false in
 theorem fld8 (v0 v1 v2 v3 v4 v5 v6 v7 v8 v9 v10 v11 v12 v13 v14 v15 v16 v17 v18 v19 v20 v21 v22 v23 v24 v25 v26 : Nat)
-    (h0 : v0 < 2) (h1 : v1 < 8) (h2 : v2 < 12) (h3 : v3 < 2) (h4 : v4 < 3) (h5 : v5 < 2) (h6 : v6 < 2) (h7 : v7 < 2) (h8 : v8 < 4) (h9 : v9 < 4) (h10 : v10 < 4) (h11 : v11 < 2) (h12 : v12 < 20) (h13 : v13 < 3) (h14 : v14 < 4) (h15 : v15 < 2) (h16 : v16 < 2) (h17 : v17 < 6) (h18 : v18 < 2) (h19 : v19 < 6) (h20 : v20 < 2) (h21 : v21 < 2) (h22 : v22 < 2) (h23 : v23 < 2) (h24 : v24 < 2) (h25 : v25 < 2) (h26 : v26 < 3) :
-    (v0 + (v1 * 2 + (v2 * 16 + (v3 * 192 + (v4 * 384 + (v5 * 1152 + (v6 * 2304 + (v7 * 4608 + (v8 * 9216 + (v9 * 36864 + (v10 * 147456 + (v11 * 589824 + (v12 * 1179648 + (v13 * 23592960 + (v14 * 70778880 + (v15 * 283115520 + (v16 * 566231040 + (v17 * 1132462080 + (v18 * 6794772480 + (v19 * 13589544960 + (v20 * 81537269760 + (v21 * 163074539520 + (v22 * 326149079040 + (v23 * 652298158080 + (v24 * 1304596316160 + (v25 * 2609192632320 + (v26 * 5218385264640))))))))))))))))))))))))))) / 9216 % 4 = v8 := by omega
+    (h0 : v0 < 2) (h1 : v1 < 8) (h2 : v2 < 20) (h3 : v3 < 2) (h4 : v4 < 3) (h5 : v5 < 2) (h6 : v6 < 2) (h7 : v7 < 2) (h8 : v8 < 4) (h9 : v9 < 4) (h10 : v10 < 4) (h11 : v11 < 2) (h12 : v12 < 20) (h13 : v13 < 3) (h14 : v14 < 4) (h15 : v15 < 2) (h16 : v16 < 2) (h17 : v17 < 6) (h18 : v18 < 2) (h19 : v19 < 6) (h20 : v20 < 2) (h21 : v21 < 2) (h22 : v22 < 2) (h23 : v23 < 2) (h24 : v24 < 2) (h25 : v25 < 2) (h26 : v26 < 3) :
+    (v0 + (v1 * 2 + (v2 * 16 + (v3 * 320 + (v4 * 640 + (v5 * 1920 + (v6 * 3840 + (v7 * 7680 + (v8 * 15360 + (v9 * 61440 + (v10 * 245760 + (v11 * 983040 + (v12 * 1966080 + (v13 * 39321600 + (v14 * 117964800 + (v15 * 471859200 + (v16 * 943718400 + (v17 * 1887436800 + (v18 * 11324620800 + (v19 * 22649241600 + (v20 * 135895449600 + (v21 * 271790899200 + (v22 * 543581798400 + (v23 * 1087163596800 + (v24 * 2174327193600 + (v25 * 4348654387200 + (v26 * 8697308774400))))))))))))))))))))))))))) / 15360 % 4 = v8 := by omega
 set_option linter.unusedVariables false in
 theorem fld9 (v0 v1 v2 v3 v4 v5 v6 v7 v8 v9 v10 v11 v12 v13 v14 v15 v16 v17 v18 v19 v20 v21 v22 v23 v24 v25 v26 : Nat)
-    (h0 : v0 < 2) (h1 : v1 < 8) (h2 : v2 < 12) (h3 : v3 < 2) (h4 : v4 < 3) (h5 : v5 < 2) (h6 : v6 < 2) (h7 : v7 < 2) (h8 : v8 < 4) (h9 : v9 < 4) (h10 : v10 < 4) (h11 : v11 < 2) (h12 : v12 < 20) (h13 : v13 < 3) (h14 : v14 < 4) (h15 : v15 < 2) (h16 : v16 < 2) (h17 : v17 < 6) (h18 : v18 < 2) (h19 : v19 < 6) (h20 : v20 < 2) (h21 : v21 < 2) (h22 : v22 < 2) (h23 : v23 < 2) (h24 : v24 < 2) (h25 : v25 < 2) (h26 : v26 < 3) :
-    (v0 + (v1 * 2 + (v2 * 16 + (v3 * 192 + (v4 * 384 + (v5 * 1152 + (v6 * 2304 + (v7 * 4608 + (v8 * 9216 + (v9 * 36864 + (v10 * 147456 + (v11 * 589824 + (v12 * 1179648 + (v13 * 23592960 + (v14 * 70778880 + (v15 * 283115520 + (v16 * 566231040 + (v17 * 1132462080 + (v18 * 6794772480 + (v19 * 13589544960 + (v20 * 81537269760 + (v21 * 163074539520 + (v22 * 326149079040 + (v23 * 652298158080 + (v24 * 1304596316160 + (v25 * 2609192632320 + (v26 * 5218385264640))))))))))))))))))))))))))) / 36864 % 4 = v9 := by omega
+    (h0 : v0 < 2) (h1 : v1 < 8) (h2 : v2 < 20) (h3 : v3 < 2) (h4 : v4 < 3) (h5 : v5 < 2) (h6 : v6 < 2) (h7 : v7 < 2) (h8 : v8 < 4) (h9 : v9 < 4) (h10 : v10 < 4) (h11 : v11 < 2) (h12 : v12 < 20) (h13 : v13 < 3) (h14 : v14 < 4) (h15 : v15 < 2) (h16 : v16 < 2) (h17 : v17 < 6) (h18 : v18 < 2) (h19 : v19 < 6) (h20 : v20 < 2) (h21 : v21 < 2) (h22 : v22 < 2) (h23 : v23 < 2) (h24 : v24 < 2) (h25 : v25 < 2) (h26 : v26 < 3) :
+    (v0 + (v1 * 2 + (v2 * 16 + (v3 * 320 + (v4 * 640 + (v5 * 1920 + (v6 * 3840 + (v7 * 7680 + (v8 * 15360 + (v9 * 61440 + (v10 * 245760 + (v11 * 983040 + (v12 * 1966080 + (v13 * 39321600 + (v14 * 117964800 + (v15 * 471859200 + (v16 * 943718400 + (v17 * 1887436800 + (v18 * 11324620800 + (v19 * 22649241600 + (v20 * 135895449600 + (v21 * 271790899200 + (v22 * 543581798400 + (v23 * 1087163596800 + (v24 * 2174327193600 + (v25 * 4348654387200 + (v26 * 8697308774400))))))))))))))))))))))))))) / 61440 % 4 = v9 := by omega
 set_option linter.unusedVariables false in
 theorem fld10 (v0 v1 v2 v3 v4 v5 v6 v7 v8 v9 v10 v11 v12 v13 v14 v15 v16 v17 v18 v19 v20 v21 v22 v23 v24 v25 v26 : Nat)
-    (h0 : v0 < 2) (h1 : v1 < 8) (h2 : v2 < 12) (h3 : v3 < 2) (h4 : v4 < 3) (h5 : v5 < 2) (h6 : v6 < 2) (h7 : v7 < 2) (h8 : v8 < 4) (h9 : v9 < 4) (h10 : v10 < 4) (h11 : v11 < 2) (h12 : v12 < 20) (h13 : v13 < 3) (h14 : v14 < 4) (h15 : v15 < 2) (h16 : v16 < 2) (h17 : v17 < 6) (h18 : v18 < 2) (h19 : v19 < 6) (h20 : v20 < 2) (h21 : v21 < 2) (h22 : v22 < 2) (h23 : v23 < 2) (h24 : v24 < 2) (h25 : v25 < 2) (h26 : v26 < 3) :
-    (v0 + (v1 * 2 + (v2 * 16 + (v3 * 192 + (v4 * 384 + (v5 * 1152 + (v6 * 2304 + (v7 * 4608 + (v8 * 9216 + (v9 * 36864 + (v10 * 147456 + (v11 * 589824 + (v12 * 1179648 + (v13 * 23592960 + (v14 * 70778880 + (v15 * 283115520 + (v16 * 566231040 + (v17 * 1132462080 + (v18 * 6794772480 + (v19 * 13589544960 + (v20 * 81537269760 + (v21 * 163074539520 + (v22 * 326149079040 + (v23 * 652298158080 + (v24 * 1304596316160 + (v25 * 2609192632320 + (v26 * 5218385264640))))))))))))))))))))))))))) / 147456 % 4 = v10 := by omega
+    (h0 : v0 < 2) (h1 : v1 < 8) (h2 : v2 < 20) (h3 : v3 < 2) (h4 : v4 < 3) (h5 : v5 < 2) (h6 : v6 < 2) (h7 : v7 < 2) (h8 : v8 < 4) (h9 : v9 < 4) (h10 : v10 < 4) (h11 : v11 < 2) (h12 : v12 < 20) (h13 : v13 < 3) (h14 : v14 < 4) (h15 : v15 < 2) (h16 : v16 < 2) (h17 : v17 < 6) (h18 : v18 < 2) (h19 : v19 < 6) (h20 : v20 < 2) (h21 : v21 < 2) (h22 : v22 < 2) (h23 : v23 < 2) (h24 : v24 < 2) (h25 : v25 < 2) (h26 : v26 < 3) :
+    (v0 + (v1 * 2 + (v2 * 16 + (v3 * 320 + (v4 * 640 + (v5 * 1920 + (v6 * 3840 + (v7 * 7680 + (v8 * 15360 + (v9 * 61440 + (v10 * 245760 + (v11 * 983040 + (v12 * 1966080 + (v13 * 39321600 + (v14 * 117964800 + (v15 * 471859200 + (v16 * 943718400 + (v17 * 1887436800 + (v18 * 11324620800 + (v19 * 22649241600 + (v20 * 135895449600 + (v21 * 271790899200 + (v22 * 543581798400 + (v23 * 1087163596800 + (v24 * 2174327193600 + (v25 * 4348654387200 + (v26 * 8697308774400))))))))))))))))))))))))))) / 245760 % 4 = v10 := by omega
 set_option linter.unusedVariables false in
 theorem fld11 (v0 v1 v2 v3 v4 v5 v6 v7 v8 v9 v10 v11 v12 v13 v14 v15 v16 v17 v18 v19 v20 v21 v22 v23 v24 v25 v26 : Nat)
-    (h0 : v0 < 2) (h1 : v1 < 8) (h2 : v2 < 12) (h3 : v3 < 2) (h4 : v4 < 3) (h5 : v5 < 2) (h6 : v6 < 2) (h7 : v7 < 2) (h8 : v8 < 4) (h9 : v9 < 4) (h10 : v10 < 4) (h11 : v11 < 2) (h12 : v12 < 20) (h13 : v13 < 3) (h14 : v14 < 4) (h15 : v15 < 2) (h16 : v16 < 2) (h17 : v17 < 6) (h18 : v18 < 2) (h19 : v19 < 6) (h20 : v20 < 2) (h21 : v21 < 2) (h22 : v22 < 2) (h23 : v23 < 2) (h24 : v24 < 2) (h25 : v25 < 2) (h26 : v26 < 3) :
-    (v0 + (v1 * 2 + (v2 * 16 + (v3 * 192 + (v4 * 384 + (v5 * 1152 + (v6 * 2304 + (v7 * 4608 + (v8 * 9216 + (v9 * 36864 + (v10 * 147456 + (v11 * 589824 + (v12 * 1179648 + (v13 * 23592960 + (v14 * 70778880 + (v15 * 283115520 + (v16 * 566231040 + (v17 * 1132462080 + (v18 * 6794772480 + (v19 * 13589544960 + (v20 * 81537269760 + (v21 * 163074539520 + (v22 * 326149079040 + (v23 * 652298158080 + (v24 * 1304596316160 + (v25 * 2609192632320 + (v26 * 5218385264640))))))))))))))))))))))))))) / 589824 % 2 = v11 := by omega
+    (h0 : v0 < 2) (h1 : v1 < 8) (h2 : v2 < 20) (h3 : v3 < 2) (h4 : v4 < 3) (h5 : v5 < 2) (h6 : v6 < 2) (h7 : v7 < 2) (h8 : v8 < 4) (h9 : v9 < 4) (h10 : v10 < 4) (h11 : v11 < 2) (h12 : v12 < 20) (h13 : v13 < 3) (h14 : v14 < 4) (h15 : v15 < 2) (h16 : v16 < 2) (h17 : v17 < 6) (h18 : v18 < 2) (h19 : v19 < 6) (h20 : v20 < 2) (h21 : v21 < 2) (h22 : v22 < 2) (h23 : v23 < 2) (h24 : v24 < 2) (h25 : v25 < 2) (h26 : v26 < 3) :
+    (v0 + (v1 * 2 + (v2 * 16 + (v3 * 320 + (v4 * 640 + (v5 * 1920 + (v6 * 3840 + (v7 * 7680 + (v8 * 15360 + (v9 * 61440 + (v10 * 245760 + (v11 * 983040 + (v12 * 1966080 + (v13 * 39321600 + (v14 * 117964800 + (v15 * 471859200 + (v16 * 943718400 + (v17 * 1887436800 + (v18 * 11324620800 + (v19 * 22649241600 + (v20 * 135895449600 + (v21 * 271790899200 + (v22 * 543581798400 + (v23 * 1087163596800 + (v24 * 2174327193600 + (v25 * 4348654387200 + (v26 * 8697308774400))))))))))))))))))))))))))) / 983040 % 2 = v11 := by omega
 set_option linter.unusedVariables false in
 theorem fld12 (v0 v1 v2 v3 v4 v5 v6 v7 v8 v9 v10 v11 v12 v13 v14 v15 v16 v17 v18 v19 v20 v21 v22 v23 v24 v25 v26 : Nat)
-    (h0 : v0 < 2) (h1 : v1 < 8) (h2 : v2 < 12) (h3 : v3 < 2) (h4 : v4 < 3) (h5 : v5 < 2) (h6 : v6 < 2) (h7 : v7 < 2) (h8 : v8 < 4) (h9 : v9 < 4) (h10 : v10 < 4) (h11 : v11 < 2) (h12 : v12 < 20) (h13 : v13 < 3) (h14 : v14 < 4) (h15 : v15 < 2) (h16 : v16 < 2) (h17 : v17 < 6) (h18 : v18 < 2) (h19 : v19 < 6) (h20 : v20 < 2) (h21 : v21 < 2) (h22 : v22 < 2) (h23 : v23 < 2) (h24 : v24 < 2) (h25 : v25 < 2) (h26 : v26 < 3) :
-    (v0 + (v1 * 2 + (v2 * 16 + (v3 * 192 + (v4 * 384 + (v5 * 1152 + (v6 * 2304 + (v7 * 4608 + (v8 * 9216 + (v9 * 36864 + (v10 * 147456 + (v11 * 589824 + (v12 * 1179648 + (v13 * 23592960 + (v14 * 70778880 + (v15 * 283115520 + (v16 * 566231040 + (v17 * 1132462080 + (v18 * 6794772480 + (v19 * 13589544960 + (v20 * 81537269760 + (v21 * 163074539520 + (v22 * 326149079040 + (v23 * 652298158080 + (v24 * 1304596316160 + (v25 * 2609192632320 + (v26 * 5218385264640))))))))))))))))))))))))))) / 1179648 % 20 = v12 := by omega
+    (h0 : v0 < 2) (h1 : v1 < 8) (h2 : v2 < 20) (h3 : v3 < 2) (h4 : v4 < 3) (h5 : v5 < 2) (h6 : v6 < 2) (h7 : v7 < 2) (h8 : v8 < 4) (h9 : v9 < 4) (h10 : v10 < 4) (h11 : v11 < 2) (h12 : v12 < 20) (h13 : v13 < 3) (h14 : v14 < 4) (h15 : v15 < 2) (h16 : v16 < 2) (h17 : v17 < 6) (h18 : v18 < 2) (h19 : v19 < 6) (h20 : v20 < 2) (h21 : v21 < 2) (h22 : v22 < 2) (h23 : v23 < 2) (h24 : v24 < 2) (h25 : v25 < 2) (h26 : v26 < 3) :
+    (v0 + (v1 * 2 + (v2 * 16 + (v3 * 320 + (v4 * 640 + (v5 * 1920 + (v6 * 3840 + (v7 * 7680 + (v8 * 15360 + (v9 * 61440 + (v10 * 245760 + (v11 * 983040 + (v12 * 1966080 + (v13 * 39321600 + (v14 * 117964800 + (v15 * 471859200 + (v16 * 943718400 + (v17 * 1887436800 + (v18 * 11324620800 + (v19 * 22649241600 + (v20 * 135895449600 + (v21 * 271790899200 + (v22 * 543581798400 + (v23 * 1087163596800 + (v24 * 2174327193600 + (v25 * 4348654387200 + (v26 * 8697308774400))))))))))))))))))))))))))) / 1966080 % 20 = v12 := by omega
 set_option linter.unusedVariables false in
 theorem fld13 (v0 v1 v2 v3 v4 v5 v6 v7 v8 v9 v10 v11 v12 v13 v14 v15 v16 v17 v18 v19 v20 v21 v22 v23 v24 v25 v26 : Nat)
-    (h0 : v0 < 2) (h1 : v1 < 8) (h2 : v2 < 12) (h3 : v3 < 2) (h4 : v4 < 3) (h5 : v5 < 2) (h6 : v6 < 2) (h7 : v7 < 2) (h8 : v8 < 4) (h9 : v9 < 4) (h10 : v10 < 4) (h11 : v11 < 2) (h12 : v12 < 20) (h13 : v13 < 3) (h14 : v14 < 4) (h15 : v15 < 2) (h16 : v16 < 2) (h17 : v17 < 6) (h18 : v18 < 2) (h19 : v19 < 6) (h20 : v20 < 2) (h21 : v21 < 2) (h22 : v22 < 2) (h23 : v23 < 2) (h24 : v24 < 2) (h25 : v25 < 2) (h26 : v26 < 3) :
-    (v0 + (v1 * 2 + (v2 * 16 + (v3 * 192 + (v4 * 384 + (v5 * 1152 + (v6 * 2304 + (v7 * 4608 + (v8 * 9216 + (v9 * 36864 + (v10 * 147456 + (v11 * 589824 + (v12 * 1179648 + (v13 * 23592960 + (v14 * 70778880 + (v15 * 283115520 + (v16 * 566231040 + (v17 * 1132462080 + (v18 * 6794772480 + (v19 * 13589544960 + (v20 * 81537269760 + (v21 * 163074539520 + (v22 * 326149079040 + (v23 * 652298158080 + (v24 * 1304596316160 + (v25 * 2609192632320 + (v26 * 5218385264640))))))))))))))))))))))))))) / 23592960 % 3 = v13 := by omega
+    (h0 : v0 < 2) (h1 : v1 < 8) (h2 : v2 < 20) (h3 : v3 < 2) (h4 : v4 < 3) (h5 : v5 < 2) (h6 : v6 < 2) (h7 : v7 < 2) (h8 : v8 < 4) (h9 : v9 < 4) (h10 : v10 < 4) (h11 : v11 < 2) (h12 : v12 < 20) (h13 : v13 < 3) (h14 : v14 < 4) (h15 : v15 < 2) (h16 : v16 < 2) (h17 : v17 < 6) (h18 : v18 < 2) (h19 : v19 < 6) (h20 : v20 < 2) (h21 : v21 < 2) (h22 : v22 < 2) (h23 : v23 < 2) (h24 : v24 < 2) (h25 : v25 < 2) (h26 : v26 < 3) :
+    (v0 + (v1 * 2 + (v2 * 16 + (v3 * 320 + (v4 * 640 + (v5 * 1920 + (v6 * 3840 + (v7 * 7680 + (v8 * 15360 + (v9 * 61440 + (v10 * 245760 + (v11 * 983040 + (v12 * 1966080 + (v13 * 39321600 + (v14 * 117964800 + (v15 * 471859200 + (v16 * 943718400 + (v17 * 1887436800 + (v18 * 11324620800 + (v19 * 22649241600 + (v20 * 135895449600 + (v21 * 271790899200 + (v22 * 543581798400 + (v23 * 1087163596800 + (v24 * 2174327193600 + (v25 * 4348654387200 + (v26 * 8697308774400))))))))))))))))))))))))))) / 39321600 % 3 = v13 := by omega
 set_option linter.unusedVariables false in
 theorem fld14 (v0 v1 v2 v3 v4 v5 v6 v7 v8 v9 v10 v11 v12 v13 v14 v15 v16 v17 v18 v19 v20 v21 v22 v23 v24 v25 v26 : Nat)
-    (h0 : v0 < 2) (h1 : v1 < 8) (h2 : v2 < 12) (h3 : v3 < 2) (h4 : v4 < 3) (h5 : v5 < 2) (h6 : v6 < 2) (h7 : v7 < 2) (h8 : v8 < 4) (h9 : v9 < 4) (h10 : v10 < 4) (h11 : v11 < 2) (h12 : v12 < 20) (h13 : v13 < 3) (h14 : v14 < 4) (h15 : v15 < 2) (h16 : v16 < 2) (h17 : v17 < 6) (h18 : v18 < 2) (h19 : v19 < 6) (h20 : v20 < 2) (h21 : v21 < 2) (h22 : v22 < 2) (h23 : v23 < 2) (h24 : v24 < 2) (h25 : v25 < 2) (h26 : v26 < 3) :
-    (v0 + (v1 * 2 + (v2 * 16 + (v3 * 192 + (v4 * 384 + (v5 * 1152 + (v6 * 2304 + (v7 * 4608 + (v8 * 9216 + (v9 * 36864 + (v10 * 147456 + (v11 * 589824 + (v12 * 1179648 + (v13 * 23592960 + (v14 * 70778880 + (v15 * 283115520 + (v16 * 566231040 + (v17 * 1132462080 + (v18 * 6794772480 + (v19 * 13589544960 + (v20 * 81537269760 + (v21 * 163074539520 + (v22 * 326149079040 + (v23 * 652298158080 + (v24 * 1304596316160 + (v25 * 2609192632320 + (v26 * 5218385264640))))))))))))))))))))))))))) / 70778880 % 4 = v14 := by omega
+    (h0 : v0 < 2) (h1 : v1 < 8) (h2 : v2 < 20) (h3 : v3 < 2) (h4 : v4 < 3) (h5 : v5 < 2) (h6 : v6 < 2) (h7 : v7 < 2) (h8 : v8 < 4) (h9 : v9 < 4) (h10 : v10 < 4) (h11 : v11 < 2) (h12 : v12 < 20) (h13 : v13 < 3) (h14 : v14 < 4) (h15 : v15 < 2) (h16 : v16 < 2) (h17 : v17 < 6) (h18 : v18 < 2) (h19 : v19 < 6) (h20 : v20 < 2) (h21 : v21 < 2) (h22 : v22 < 2) (h23 : v23 < 2) (h24 : v24 < 2) (h25 : v25 < 2) (h26 : v26 < 3) :
+    (v0 + (v1 * 2 + (v2 * 16 + (v3 * 320 + (v4 * 640 + (v5 * 1920 + (v6 * 3840 + (v7 * 7680 + (v8 * 15360 + (v9 * 61440 + (v10 * 245760 + (v11 * 983040 + (v12 * 1966080 + (v13 * 39321600 + (v14 * 117964800 + (v15 * 471859200 + (v16 * 943718400 + (v17 * 1887436800 + (v18 * 11324620800 + (v19 * 22649241600 + (v20 * 135895449600 + (v21 * 271790899200 + (v22 * 543581798400 + (v23 * 1087163596800 + (v24 * 2174327193600 + (v25 * 4348654387200 + (v26 * 8697308774400))))))))))))))))))))))))))) / 117964800 % 4 = v14 := by omega
 set_option linter.unusedVariables false in
 theorem fld15 (v0 v1 v2 v3 v4 v5 v6 v7 v8 v9 v10 v11 v12 v13 v14 v15 v16 v17 v18 v19 v20 v21 v22 v23 v24 v25 v26 : Nat)
-    (h0 : v0 < 2) (h1 : v1 < 8) (h2 : v2 < 12) (h3 : v3 < 2) (h4 : v4 < 3) (h5 : v5 < 2) (h6 : v6 < 2) (h7 : v7 < 2) (h8 : v8 < 4) (h9 : v9 < 4) (h10 : v10 < 4) (h11 : v11 < 2) (h12 : v12 < 20) (h13 : v13 < 3) (h14 : v14 < 4) (h15 : v15 < 2) (h16 : v16 < 2) (h17 : v17 < 6) (h18 : v18 < 2) (h19 : v19 < 6) (h20 : v20 < 2) (h21 : v21 < 2) (h22 : v22 < 2) (h23 : v23 < 2) (h24 : v24 < 2) (h25 : v25 < 2) (h26 : v26 < 3) :
-    (v0 + (v1 * 2 + (v2 * 16 + (v3 * 192 + (v4 * 384 + (v5 * 1152 + (v6 * 2304 + (v7 * 4608 + (v8 * 9216 + (v9 * 36864 + (v10 * 147456 + (v11 * 589824 + (v12 * 1179648 + (v13 * 23592960 + (v14 * 70778880 + (v15 * 283115520 + (v16 * 566231040 + (v17 * 1132462080 + (v18 * 6794772480 + (v19 * 13589544960 + (v20 * 81537269760 + (v21 * 163074539520 + (v22 * 326149079040 + (v23 * 652298158080 + (v24 * 1304596316160 + (v25 * 2609192632320 + (v26 * 5218385264640))))))))))))))))))))))))))) / 283115520 % 2 = v15 := by omega
+    (h0 : v0 < 2) (h1 : v1 < 8) (h2 : v2 < 20) (h3 : v3 < 2) (h4 : v4 < 3) (h5 : v5 < 2) (h6 : v6 < 2) (h7 : v7 < 2) (h8 : v8 < 4) (h9 : v9 < 4) (h10 : v10 < 4) (h11 : v11 < 2) (h12 : v12 < 20) (h13 : v13 < 3) (h14 : v14 < 4) (h15 : v15 < 2) (h16 : v16 < 2) (h17 : v17 < 6) (h18 : v18 < 2) (h19 : v19 < 6) (h20 : v20 < 2) (h21 : v21 < 2) (h22 : v22 < 2) (h23 : v23 < 2) (h24 : v24 < 2) (h25 : v25 < 2) (h26 : v26 < 3) :
+    (v0 + (v1 * 2 + (v2 * 16 + (v3 * 320 + (v4 * 640 + (v5 * 1920 + (v6 * 3840 + (v7 * 7680 + (v8 * 15360 + (v9 * 61440 + (v10 * 245760 + (v11 * 983040 + (v12 * 1966080 + (v13 * 39321600 + (v14 * 117964800 + (v15 * 471859200 + (v16 * 943718400 + (v17 * 1887436800 + (v18 * 11324620800 + (v19 * 22649241600 + (v20 * 135895449600 + (v21 * 271790899200 + (v22 * 543581798400 + (v23 * 1087163596800 + (v24 * 2174327193600 + (v25 * 4348654387200 + (v26 * 8697308774400))))))))))))))))))))))))))) / 471859200 % 2 = v15 := by omega
 set_option linter.unusedVariables false in
 theorem fld16 (v0 v1 v2 v3 v4 v5 v6 v7 v8 v9 v10 v11 v12 v13 v14 v15 v16 v17 v18 v19 v20 v21 v22 v23 v24 v25 v26 : Nat)
-    (h0 : v0 < 2) (h1 : v1 < 8) (h2 : v2 < 12) (h3 : v3 < 2) (h4 : v4 < 3) (h5 : v5 < 2) (h6 : v6 < 2) (h7 : v7 < 2) (h8 : v8 < 4) (h9 : v9 < 4) (h10 : v10 < 4) (h11 : v11 < 2) (h12 : v12 < 20) (h13 : v13 < 3) (h14 : v14 < 4) (h15 : v15 < 2) (h16 : v16 < 2) (h17 : v17 < 6) (h18 : v18 < 2) (h19 : v19 < 6) (h20 : v20 < 2) (h21 : v21 < 2) (h22 : v22 < 2) (h23 : v23 < 2) (h24 : v24 < 2) (h25 : v25 < 2) (h26 : v26 < 3) :
-    (v0 + (v1 * 2 + (v2 * 16 + (v3 * 192 + (v4 * 384 + (v5 * 1152 + (v6 * 2304 + (v7 * 4608 + (v8 * 9216 + (v9 * 36864 + (v10 * 147456 + (v11 * 589824 + (v12 * 1179648 + (v13 * 23592960 + (v14 * 70778880 + (v15 * 283115520 + (v16 * 566231040 + (v17 * 1132462080 + (v18 * 6794772480 + (v19 * 13589544960 + (v20 * 81537269760 + (v21 * 163074539520 + (v22 * 326149079040 + (v23 * 652298158080 + (v24 * 1304596316160 + (v25 * 2609192632320 + (v26 * 5218385264640))))))))))))))))))))))))))) / 566231040 % 2 = v16 := by omega
+    (h0 : v0 < 2) (h1 : v1 < 8) (h2 : v2 < 20) (h3 : v3 < 2) (h4 : v4 < 3) (h5 : v5 < 2) (h6 : v6 < 2) (h7 : v7 < 2) (h8 : v8 < 4) (h9 : v9 < 4) (h10 : v10 < 4) (h11 : v11 < 2) (h12 : v12 < 20) (h13 : v13 < 3) (h14 : v14 < 4) (h15 : v15 < 2) (h16 : v16 < 2) (h17 : v17 < 6) (h18 : v18 < 2) (h19 : v19 < 6) (h20 : v20 < 2) (h21 : v21 < 2) (h22 : v22 < 2) (h23 : v23 < 2) (h24 : v24 < 2) (h25 : v25 < 2) (h26 : v26 < 3) :
+    (v0 + (v1 * 2 + (v2 * 16 + (v3 * 320 + (v4 * 640 + (v5 * 1920 + (v6 * 3840 + (v7 * 7680 + (v8 * 15360 + (v9 * 61440 + (v10 * 245760 + (v11 * 983040 + (v12 * 1966080 + (v13 * 39321600 + (v14 * 117964800 + (v15 * 471859200 + (v16 * 943718400 + (v17 * 1887436800 + (v18 * 11324620800 + (v19 * 22649241600 + (v20 * 135895449600 + (v21 * 271790899200 + (v22 * 543581798400 + (v23 * 1087163596800 + (v24 * 2174327193600 + (v25 * 4348654387200 + (v26 * 8697308774400))))))))))))))))))))))))))) / 943718400 % 2 = v16 := by omega
 set_option linter.unusedVariables false in
 theorem fld17 (v0 v1 v2 v3 v4 v5 v6 v7 v8 v9 v10 v11 v12 v13 v14 v15 v16 v17 v18 v19 v20 v21 v22 v23 v24 v25 v26 : Nat)
-    (h0 : v0 < 2) (h1 : v1 < 8) (h2 : v2 < 12) (h3 : v3 < 2) (h4 : v4 < 3) (h5 : v5 < 2) (h6 : v6 < 2) (h7 : v7 < 2) (h8 : v8 < 4) (h9 : v9 < 4) (h10 : v10 < 4) (h11 : v11 < 2) (h12 : v12 < 20) (h13 : v13 < 3) (h14 : v14 < 4) (h15 : v15 < 2) (h16 : v16 < 2) (h17 : v17 < 6) (h18 : v18 < 2) (h19 : v19 < 6) (h20 : v20 < 2) (h21 : v21 < 2) (h22 : v22 < 2) (h23 : v23 < 2) (h24 : v24 < 2) (h25 : v25 < 2) (h26 : v26 < 3) :
-    (v0 + (v1 * 2 + (v2 * 16 + (v3 * 192 + (v4 * 384 + (v5 * 1152 + (v6 * 2304 + (v7 * 4608 + (v8 * 9216 + (v9 * 36864 + (v10 * 147456 + (v11 * 589824 + (v12 * 1179648 + (v13 * 23592960 + (v14 * 70778880 + (v15 * 283115520 + (v16 * 566231040 + (v17 * 1132462080 + (v18 * 6794772480 + (v19 * 13589544960 + (v20 * 81537269760 + (v21 * 163074539520 + (v22 * 326149079040 + (v23 * 652298158080 + (v24 * 1304596316160 + (v25 * 2609192632320 + (v26 * 5218385264640))))))))))))))))))))))))))) / 1132462080 % 6 = v17 := by omega
+    (h0 : v0 < 2) (h1 : v1 < 8) (h2 : v2 < 20) (h3 : v3 < 2) (h4 : v4 < 3) (h5 : v5 < 2) (h6 : v6 < 2) (h7 : v7 < 2) (h8 : v8 < 4) (h9 : v9 < 4) (h10 : v10 < 4) (h11 : v11 < 2) (h12 : v12 < 20) (h13 : v13 < 3) (h14 : v14 < 4) (h15 : v15 < 2) (h16 : v16 < 2) (h17 : v17 < 6) (h18 : v18 < 2) (h19 : v19 < 6) (h20 : v20 < 2) (h21 : v21 < 2) (h22 : v22 < 2) (h23 : v23 < 2) (h24 : v24 < 2) (h25 : v25 < 2) (h26 : v26 < 3) :
+    (v0 + (v1 * 2 + (v2 * 16 + (v3 * 320 + (v4 * 640 + (v5 * 1920 + (v6 * 3840 + (v7 * 7680 + (v8 * 15360 + (v9 * 61440 + (v10 * 245760 + (v11 * 983040 + (v12 * 1966080 + (v13 * 39321600 + (v14 * 117964800 + (v15 * 471859200 + (v16 * 943718400 + (v17 * 1887436800 + (v18 * 11324620800 + (v19 * 22649241600 + (v20 * 135895449600 + (v21 * 271790899200 + (v22 * 543581798400 + (v23 * 1087163596800 + (v24 * 2174327193600 + (v25 * 4348654387200 + (v26 * 8697308774400))))))))))))))))))))))))))) / 1887436800 % 6 = v17 := by omega
 set_option linter.unusedVariables false in
 theorem fld18 (v0 v1 v2 v3 v4 v5 v6 v7 v8 v9 v10 v11 v12 v13 v14 v15 v16 v17 v18 v19 v20 v21 v22 v23 v24 v25 v26 : Nat)
-    (h0 : v0 < 2) (h1 : v1 < 8) (h2 : v2 < 12) (h3 : v3 < 2) (h4 : v4 < 3) (h5 : v5 < 2) (h6 : v6 < 2) (h7 : v7 < 2) (h8 : v8 < 4) (h9 : v9 < 4) (h10 : v10 < 4) (h11 : v11 < 2) (h12 : v12 < 20) (h13 : v13 < 3) (h14 : v14 < 4) (h15 : v15 < 2) (h16 : v16 < 2) (h17 : v17 < 6) (h18 : v18 < 2) (h19 : v19 < 6) (h20 : v20 < 2) (h21 : v21 < 2) (h22 : v22 < 2) (h23 : v23 < 2) (h24 : v24 < 2) (h25 : v25 < 2) (h26 : v26 < 3) :
-    (v0 + (v1 * 2 + (v2 * 16 + (v3 * 192 + (v4 * 384 + (v5 * 1152 + (v6 * 2304 + (v7 * 4608 + (v8 * 9216 + (v9 * 36864 + (v10 * 147456 + (v11 * 589824 + (v12 * 1179648 + (v13 * 23592960 + (v14 * 70778880 + (v15 * 283115520 + (v16 * 566231040 + (v17 * 1132462080 + (v18 * 6794772480 + (v19 * 13589544960 + (v20 * 81537269760 + (v21 * 163074539520 + (v22 * 326149079040 + (v23 * 652298158080 + (v24 * 1304596316160 + (v25 * 2609192632320 + (v26 * 5218385264640))))))))))))))))))))))))))) / 6794772480 % 2 = v18 := by omega
+    (h0 : v0 < 2) (h1 : v1 < 8) (h2 : v2 < 20) (h3 : v3 < 2) (h4 : v4 < 3) (h5 : v5 < 2) (h6 : v6 < 2) (h7 : v7 < 2) (h8 : v8 < 4) (h9 : v9 < 4) (h10 : v10 < 4) (h11 : v11 < 2) (h12 : v12 < 20) (h13 : v13 < 3) (h14 : v14 < 4) (h15 : v15 < 2) (h16 : v16 < 2) (h17 : v17 < 6) (h18 : v18 < 2) (h19 : v19 < 6) (h20 : v20 < 2) (h21 : v21 < 2) (h22 : v22 < 2) (h23 : v23 < 2) (h24 : v24 < 2) (h25 : v25 < 2) (h26 : v26 < 3) :
+    (v0 + (v1 * 2 + (v2 * 16 + (v3 * 320 + (v4 * 640 + (v5 * 1920 + (v6 * 3840 + (v7 * 7680 + (v8 * 15360 + (v9 * 61440 + (v10 * 245760 + (v11 * 983040 + (v12 * 1966080 + (v13 * 39321600 + (v14 * 117964800 + (v15 * 471859200 + (v16 * 943718400 + (v17 * 1887436800 + (v18 * 11324620800 + (v19 * 22649241600 + (v20 * 135895449600 + (v21 * 271790899200 + (v22 * 543581798400 + (v23 * 1087163596800 + (v24 * 2174327193600 + (v25 * 4348654387200 + (v26 * 8697308774400))))))))))))))))))))))))))) / 11324620800 % 2 = v18 := by omega
 set_option linter.unusedVariables false in
 theorem fld19 (v0 v1 v2 v3 v4 v5 v6 v7 v8 v9 v10 v11 v12 v13 v14 v15 v16 v17 v18 v19 v20 v21 v22 v23 v24 v25 v26 : Nat)
-    (h0 : v0 < 2) (h1 : v1 < 8) (h2 : v2 < 12) (h3 : v3 < 2) (h4 : v4 < 3) (h5 : v5 < 2) (h6 : v6 < 2) (h7 : v7 < 2) (h8 : v8 < 4) (h9 : v9 < 4) (h10 : v10 < 4) (h11 : v11 < 2) (h12 : v12 < 20) (h13 : v13 < 3) (h14 : v14 < 4) (h15 : v15 < 2) (h16 : v16 < 2) (h17 : v17 < 6) (h18 : v18 < 2) (h19 : v19 < 6) (h20 : v20 < 2) (h21 : v21 < 2) (h22 : v22 < 2) (h23 : v23 < 2) (h24 : v24 < 2) (h25 : v25 < 2) (h26 : v26 < 3) :
-    (v0 + (v1 * 2 + (v2 * 16 + (v3 * 192 + (v4 * 384 + (v5 * 1152 + (v6 * 2304 + (v7 * 4608 + (v8 * 9216 + (v9 * 36864 + (v10 * 147456 + (v11 * 589824 + (v12 * 1179648 + (v13 * 23592960 + (v14 * 70778880 + (v15 * 283115520 + (v16 * 566231040 + (v17 * 1132462080 + (v18 * 6794772480 + (v19 * 13589544960 + (v20 * 81537269760 + (v21 * 163074539520 + (v22 * 326149079040 + (v23 * 652298158080 + (v24 * 1304596316160 + (v25 * 2609192632320 + (v26 * 5218385264640))))))))))))))))))))))))))) / 13589544960 % 6 = v19 := by omega
+    (h0 : v0 < 2) (h1 : v1 < 8) (h2 : v2 < 20) (h3 : v3 < 2) (h4 : v4 < 3) (h5 : v5 < 2) (h6 : v6 < 2) (h7 : v7 < 2) (h8 : v8 < 4) (h9 : v9 < 4) (h10 : v10 < 4) (h11 : v11 < 2) (h12 : v12 < 20) (h13 : v13 < 3) (h14 : v14 < 4) (h15 : v15 < 2) (h16 : v16 < 2) (h17 : v17 < 6) (h18 : v18 < 2) (h19 : v19 < 6) (h20 : v20 < 2) (h21 : v21 < 2) (h22 : v22 < 2) (h23 : v23 < 2) (h24 : v24 < 2) (h25 : v25 < 2) (h26 : v26 < 3) :
+    (v0 + (v1 * 2 + (v2 * 16 + (v3 * 320 + (v4 * 640 + (v5 * 1920 + (v6 * 3840 + (v7 * 7680 + (v8 * 15360 + (v9 * 61440 + (v10 * 245760 + (v11 * 983040 + (v12 * 1966080 + (v13 * 39321600 + (v14 * 117964800 + (v15 * 471859200 + (v16 * 943718400 + (v17 * 1887436800 + (v18 * 11324620800 + (v19 * 22649241600 + (v20 * 135895449600 + (v21 * 271790899200 + (v22 * 543581798400 + (v23 * 1087163596800 + (v24 * 2174327193600 + (v25 * 4348654387200 + (v26 * 8697308774400))))))))))))))))))))))))))) / 22649241600 % 6 = v19 := by omega
 set_option linter.unusedVariables false in
 theorem fld20 (v0 v1 v2 v3 v4 v5 v6 v7 v8 v9 v10 v11 v12 v13 v14 v15 v16 v17 v18 v19 v20 v21 v22 v23 v24 v25 v26 : Nat)
-    (h0 : v0 < 2) (h1 : v1 < 8) (h2 : v2 < 12) (h3 : v3 < 2) (h4 : v4 < 3) (h5 : v5 < 2) (h6 : v6 < 2) (h7 : v7 < 2) (h8 : v8 < 4) (h9 : v9 < 4) (h10 : v10 < 4) (h11 : v11 < 2) (h12 : v12 < 20) (h13 : v13 < 3) (h14 : v14 < 4) (h15 : v15 < 2) (h16 : v16 < 2) (h17 : v17 < 6) (h18 : v18 < 2) (h19 : v19 < 6) (h20 : v20 < 2) (h21 : v21 < 2) (h22 : v22 < 2) (h23 : v23 < 2) (h24 : v24 < 2) (h25 : v25 < 2) (h26 : v26 < 3) :
-    (v0 + (v1 * 2 + (v2 * 16 + (v3 * 192 + (v4 * 384 + (v5 * 1152 + (v6 * 2304 + (v7 * 4608 + (v8 * 9216 + (v9 * 36864 + (v10 * 147456 + (v11 * 589824 + (v12 * 1179648 + (v13 * 23592960 + (v14 * 70778880 + (v15 * 283115520 + (v16 * 566231040 + (v17 * 1132462080 + (v18 * 6794772480 + (v19 * 13589544960 + (v20 * 81537269760 + (v21 * 163074539520 + (v22 * 326149079040 + (v23 * 652298158080 + (v24 * 1304596316160 + (v25 * 2609192632320 + (v26 * 5218385264640))))))))))))))))))))))))))) / 81537269760 % 2 = v20 := by omega
+    (h0 : v0 < 2) (h1 : v1 < 8) (h2 : v2 < 20) (h3 : v3 < 2) (h4 : v4 < 3) (h5 : v5 < 2) (h6 : v6 < 2) (h7 : v7 < 2) (h8 : v8 < 4) (h9 : v9 < 4) (h10 : v10 < 4) (h11 : v11 < 2) (h12 : v12 < 20) (h13 : v13 < 3) (h14 : v14 < 4) (h15 : v15 < 2) (h16 : v16 < 2) (h17 : v17 < 6) (h18 : v18 < 2) (h19 : v19 < 6) (h20 : v20 < 2) (h21 : v21 < 2) (h22 : v22 < 2) (h23 : v23 < 2) (h24 : v24 < 2) (h25 : v25 < 2) (h26 : v26 < 3) :
+    (v0 + (v1 * 2 + (v2 * 16 + (v3 * 320 + (v4 * 640 + (v5 * 1920 + (v6 * 3840 + (v7 * 7680 + (v8 * 15360 + (v9 * 61440 + (v10 * 245760 + (v11 * 983040 + (v12 * 1966080 + (v13 * 39321600 + (v14 * 117964800 + (v15 * 471859200 + (v16 * 943718400 + (v17 * 1887436800 + (v18 * 11324620800 + (v19 * 22649241600 + (v20 * 135895449600 + (v21 * 271790899200 + (v22 * 543581798400 + (v23 * 1087163596800 + (v24 * 2174327193600 + (v25 * 4348654387200 + (v26 * 8697308774400))))))))))))))))))))))))))) / 135895449600 % 2 = v20 := by omega
 set_option linter.unusedVariables false in
 theorem fld21 (v0 v1 v2 v3 v4 v5 v6 v7 v8 v9 v10 v11 v12 v13 v14 v15 v16 v17 v18 v19 v20 v21 v22 v23 v24 v25 v26 : Nat)
-    (h0 : v0 < 2) (h1 : v1 < 8) (h2 : v2 < 12) (h3 : v3 < 2) (h4 : v4 < 3) (h5 : v5 < 2) (h6 : v6 < 2) (h7 : v7 < 2) (h8 : v8 < 4) (h9 : v9 < 4) (h10 : v10 < 4) (h11 : v11 < 2) (h12 : v12 < 20) (h13 : v13 < 3) (h14 : v14 < 4) (h15 : v15 < 2) (h16 : v16 < 2) (h17 : v17 < 6) (h18 : v18 < 2) (h19 : v19 < 6) (h20 : v20 < 2) (h21 : v21 < 2) (h22 : v22 < 2) (h23 : v23 < 2) (h24 : v24 < 2) (h25 : v25 < 2) (h26 : v26 < 3) :
-    (v0 + (v1 * 2 + (v2 * 16 + (v3 * 192 + (v4 * 384 + (v5 * 1152 + (v6 * 2304 + (v7 * 4608 + (v8 * 9216 + (v9 * 36864 + (v10 * 147456 + (v11 * 589824 + (v12 * 1179648 + (v13 * 23592960 + (v14 * 70778880 + (v15 * 283115520 + (v16 * 566231040 + (v17 * 1132462080 + (v18 * 6794772480 + (v19 * 13589544960 + (v20 * 81537269760 + (v21 * 163074539520 + (v22 * 326149079040 + (v23 * 652298158080 + (v24 * 1304596316160 + (v25 * 2609192632320 + (v26 * 5218385264640))))))))))))))))))))))))))) / 163074539520 % 2 = v21 := by omega
+    (h0 : v0 < 2) (h1 : v1 < 8) (h2 : v2 < 20) (h3 : v3 < 2) (h4 : v4 < 3) (h5 : v5 < 2) (h6 : v6 < 2) (h7 : v7 < 2) (h8 : v8 < 4) (h9 : v9 < 4) (h10 : v10 < 4) (h11 : v11 < 2) (h12 : v12 < 20) (h13 : v13 < 3) (h14 : v14 < 4) (h15 : v15 < 2) (h16 : v16 < 2) (h17 : v17 < 6) (h18 : v18 < 2) (h19 : v19 < 6) (h20 : v20 < 2) (h21 : v21 < 2) (h22 : v22 < 2) (h23 : v23 < 2) (h24 : v24 < 2) (h25 : v25 < 2) (h26 : v26 < 3) :
+    (v0 + (v1 * 2 + (v2 * 16 + (v3 * 320 + (v4 * 640 + (v5 * 1920 + (v6 * 3840 + (v7 * 7680 + (v8 * 15360 + (v9 * 61440 + (v10 * 245760 + (v11 * 983040 + (v12 * 1966080 + (v13 * 39321600 + (v14 * 117964800 + (v15 * 471859200 + (v16 * 943718400 + (v17 * 1887436800 + (v18 * 11324620800 + (v19 * 22649241600 + (v20 * 135895449600 + (v21 * 271790899200 + (v22 * 543581798400 + (v23 * 1087163596800 + (v24 * 2174327193600 + (v25 * 4348654387200 + (v26 * 8697308774400))))))))))))))))))))))))))) / 271790899200 % 2 = v21 := by omega
 set_option linter.unusedVariables false in
 theorem fld22 (v0 v1 v2 v3 v4 v5 v6 v7 v8 v9 v10 v11 v12 v13 v14 v15 v16 v17 v18 v19 v20 v21 v22 v23 v24 v25 v26 : Nat)
-    (h0 : v0 < 2) (h1 : v1 < 8) (h2 : v2 < 12) (h3 : v3 < 2) (h4 : v4 < 3) (h5 : v5 < 2) (h6 : v6 < 2) (h7 : v7 < 2) (h8 : v8 < 4) (h9 : v9 < 4) (h10 : v10 < 4) (h11 : v11 < 2) (h12 : v12 < 20) (h13 : v13 < 3) (h14 : v14 < 4) (h15 : v15 < 2) (h16 : v16 < 2) (h17 : v17 < 6) (h18 : v18 < 2) (h19 : v19 < 6) (h20 : v20 < 2) (h21 : v21 < 2) (h22 : v22 < 2) (h23 : v23 < 2) (h24 : v24 < 2) (h25 : v25 < 2) (h26 : v26 < 3) :
-    (v0 + (v1 * 2 + (v2 * 16 + (v3 * 192 + (v4 * 384 + (v5 * 1152 + (v6 * 2304 + (v7 * 4608 + (v8 * 9216 + (v9 * 36864 + (v10 * 147456 + (v11 * 589824 + (v12 * 1179648 + (v13 * 23592960 + (v14 * 70778880 + (v15 * 283115520 + (v16 * 566231040 + (v17 * 1132462080 + (v18 * 6794772480 + (v19 * 13589544960 + (v20 * 81537269760 + (v21 * 163074539520 + (v22 * 326149079040 + (v23 * 652298158080 + (v24 * 1304596316160 + (v25 * 2609192632320 + (v26 * 5218385264640))))))))))))))))))))))))))) / 326149079040 % 2 = v22 := by omega
+    (h0 : v0 < 2) (h1 : v1 < 8) (h2 : v2 < 20) (h3 : v3 < 2) (h4 : v4 < 3) (h5 : v5 < 2) (h6 : v6 < 2) (h7 : v7 < 2) (h8 : v8 < 4) (h9 : v9 < 4) (h10 : v10 < 4) (h11 : v11 < 2) (h12 : v12 < 20) (h13 : v13 < 3) (h14 : v14 < 4) (h15 : v15 < 2) (h16 : v16 < 2) (h17 : v17 < 6) (h18 : v18 < 2) (h19 : v19 < 6) (h20 : v20 < 2) (h21 : v21 < 2) (h22 : v22 < 2) (h23 : v23 < 2) (h24 : v24 < 2) (h25 : v25 < 2) (h26 : v26 < 3) :
+    (v0 + (v1 * 2 + (v2 * 16 + (v3 * 320 + (v4 * 640 + (v5 * 1920 + (v6 * 3840 + (v7 * 7680 + (v8 * 15360 + (v9 * 61440 + (v10 * 245760 + (v11 * 983040 + (v12 * 1966080 + (v13 * 39321600 + (v14 * 117964800 + (v15 * 471859200 + (v16 * 943718400 + (v17 * 1887436800 + (v18 * 11324620800 + (v19 * 22649241600 + (v20 * 135895449600 + (v21 * 271790899200 + (v22 * 543581798400 + (v23 * 1087163596800 + (v24 * 2174327193600 + (v25 * 4348654387200 + (v26 * 8697308774400))))))))))))))))))))))))))) / 543581798400 % 2 = v22 := by omega
 set_option linter.unusedVariables false in
 theorem fld23 (v0 v1 v2 v3 v4 v5 v6 v7 v8 v9 v10 v11 v12 v13 v14 v15 v16 v17 v18 v19 v20 v21 v22 v23 v24 v25 v26 : Nat)
-    (h0 : v0 < 2) (h1 : v1 < 8) (h2 : v2 < 12) (h3 : v3 < 2) (h4 : v4 < 3) (h5 : v5 < 2) (h6 : v6 < 2) (h7 : v7 < 2) (h8 : v8 < 4) (h9 : v9 < 4) (h10 : v10 < 4) (h11 : v11 < 2) (h12 : v12 < 20) (h13 : v13 < 3) (h14 : v14 < 4) (h15 : v15 < 2) (h16 : v16 < 2) (h17 : v17 < 6) (h18 : v18 < 2) (h19 : v19 < 6) (h20 : v20 < 2) (h21 : v21 < 2) (h22 : v22 < 2) (h23 : v23 < 2) (h24 : v24 < 2) (h25 : v25 < 2) (h26 : v26 < 3) :
-    (v0 + (v1 * 2 + (v2 * 16 + (v3 * 192 + (v4 * 384 + (v5 * 1152 + (v6 * 2304 + (v7 * 4608 + (v8 * 9216 + (v9 * 36864 + (v10 * 147456 + (v11 * 589824 + (v12 * 1179648 + (v13 * 23592960 + (v14 * 70778880 + (v15 * 283115520 + (v16 * 566231040 + (v17 * 1132462080 + (v18 * 6794772480 + (v19 * 13589544960 + (v20 * 81537269760 + (v21 * 163074539520 + (v22 * 326149079040 + (v23 * 652298158080 + (v24 * 1304596316160 + (v25 * 2609192632320 + (v26 * 5218385264640))))))))))))))))))))))))))) / 652298158080 % 2 = v23 := by omega
+    (h0 : v0 < 2) (h1 : v1 < 8) (h2 : v2 < 20) (h3 : v3 < 2) (h4 : v4 < 3) (h5 : v5 < 2) (h6 : v6 < 2) (h7 : v7 < 2) (h8 : v8 < 4) (h9 : v9 < 4) (h10 : v10 < 4) (h11 : v11 < 2) (h12 : v12 < 20) (h13 : v13 < 3) (h14 : v14 < 4) (h15 : v15 < 2) (h16 : v16 < 2) (h17 : v17 < 6) (h18 : v18 < 2) (h19 : v19 < 6) (h20 : v20 < 2) (h21 : v21 < 2) (h22 : v22 < 2) (h23 : v23 < 2) (h24 : v24 < 2) (h25 : v25 < 2) (h26 : v26 < 3) :
+    (v0 + (v1 * 2 + (v2 * 16 + (v3 * 320 + (v4 * 640 + (v5 * 1920 + (v6 * 3840 + (v7 * 7680 + (v8 * 15360 + (v9 * 61440 + (v10 * 245760 + (v11 * 983040 + (v12 * 1966080 + (v13 * 39321600 + (v14 * 117964800 + (v15 * 471859200 + (v16 * 943718400 + (v17 * 1887436800 + (v18 * 11324620800 + (v19 * 22649241600 + (v20 * 135895449600 + (v21 * 271790899200 + (v22 * 543581798400 + (v23 * 1087163596800 + (v24 * 2174327193600 + (v25 * 4348654387200 + (v26 * 8697308774400))))))))))))))))))))))))))) / 1087163596800 % 2 = v23 := by omega
 set_option linter.unusedVariables false in
 theorem fld24 (v0 v1 v2 v3 v4 v5 v6 v7 v8 v9 v10 v11 v12 v13 v14 v15 v16 v17 v18 v19 v20 v21 v22 v23 v24 v25 v26 : Nat)
-    (h0 : v0 < 2) (h1 : v1 < 8) (h2 : v2 < 12) (h3 : v3 < 2) (h4 : v4 < 3) (h5 : v5 < 2) (h6 : v6 < 2) (h7 : v7 < 2) (h8 : v8 < 4) (h9 : v9 < 4) (h10 : v10 < 4) (h11 : v11 < 2) (h12 : v12 < 20) (h13 : v13 < 3) (h14 : v14 < 4) (h15 : v15 < 2) (h16 : v16 < 2) (h17 : v17 < 6) (h18 : v18 < 2) (h19 : v19 < 6) (h20 : v20 < 2) (h21 : v21 < 2) (h22 : v22 < 2) (h23 : v23 < 2) (h24 : v24 < 2) (h25 : v25 < 2) (h26 : v26 < 3) :
-    (v0 + (v1 * 2 + (v2 * 16 + (v3 * 192 + (v4 * 384 + (v5 * 1152 + (v6 * 2304 + (v7 * 4608 + (v8 * 9216 + (v9 * 36864 + (v10 * 147456 + (v11 * 589824 + (v12 * 1179648 + (v13 * 23592960 + (v14 * 70778880 + (v15 * 283115520 + (v16 * 566231040 + (v17 * 1132462080 + (v18 * 6794772480 + (v19 * 13589544960 + (v20 * 81537269760 + (v21 * 163074539520 + (v22 * 326149079040 + (v23 * 652298158080 + (v24 * 1304596316160 + (v25 * 2609192632320 + (v26 * 5218385264640))))))))))))))))))))))))))) / 1304596316160 % 2 = v24 := by omega
+    (h0 : v0 < 2) (h1 : v1 < 8) (h2 : v2 < 20) (h3 : v3 < 2) (h4 : v4 < 3) (h5 : v5 < 2) (h6 : v6 < 2) (h7 : v7 < 2) (h8 : v8 < 4) (h9 : v9 < 4) (h10 : v10 < 4) (h11 : v11 < 2) (h12 : v12 < 20) (h13 : v13 < 3) (h14 : v14 < 4) (h15 : v15 < 2) (h16 : v16 < 2) (h17 : v17 < 6) (h18 : v18 < 2) (h19 : v19 < 6) (h20 : v20 < 2) (h21 : v21 < 2) (h22 : v22 < 2) (h23 : v23 < 2) (h24 : v24 < 2) (h25 : v25 < 2) (h26 : v26 < 3) :
+    (v0 + (v1 * 2 + (v2 * 16 + (v3 * 320 + (v4 * 640 + (v5 * 1920 + (v6 * 3840 + (v7 * 7680 + (v8 * 15360 + (v9 * 61440 + (v10 * 245760 + (v11 * 983040 + (v12 * 1966080 + (v13 * 39321600 + (v14 * 117964800 + (v15 * 471859200 + (v16 * 943718400 + (v17 * 1887436800 + (v18 * 11324620800 + (v19 * 22649241600 + (v20 * 135895449600 + (v21 * 271790899200 + (v22 * 543581798400 + (v23 * 1087163596800 + (v24 * 2174327193600 + (v25 * 4348654387200 + (v26 * 8697308774400))))))))))))))))))))))))))) / 2174327193600 % 2 = v24 := by omega
 set_option linter.unusedVariables false in
 theorem fld25 (v0 v1 v2 v3 v4 v5 v6 v7 v8 v9 v10 v11 v12 v13 v14 v15 v16 v17 v18 v19 v20 v21 v22 v23 v24 v25 v26 : Nat)
-    (h0 : v0 < 2) (h1 : v1 < 8) (h2 : v2 < 12) (h3 : v3 < 2) (h4 : v4 < 3) (h5 : v5 < 2) (h6 : v6 < 2) (h7 : v7 < 2) (h8 : v8 < 4) (h9 : v9 < 4) (h10 : v10 < 4) (h11 : v11 < 2) (h12 : v12 < 20) (h13 : v13 < 3) (h14 : v14 < 4) (h15 : v15 < 2) (h16 : v16 < 2) (h17 : v17 < 6) (h18 : v18 < 2) (h19 : v19 < 6) (h20 : v20 < 2) (h21 : v21 < 2) (h22 : v22 < 2) (h23 : v23 < 2) (h24 : v24 < 2) (h25 : v25 < 2) (h26 : v26 < 3) :
-    (v0 + (v1 * 2 + (v2 * 16 + (v3 * 192 + (v4 * 384 + (v5 * 1152 + (v6 * 2304 + (v7 * 4608 + (v8 * 9216 + (v9 * 36864 + (v10 * 147456 + (v11 * 589824 + (v12 * 1179648 + (v13 * 23592960 + (v14 * 70778880 + (v15 * 283115520 + (v16 * 566231040 + (v17 * 1132462080 + (v18 * 6794772480 + (v19 * 13589544960 + (v20 * 81537269760 + (v21 * 163074539520 + (v22 * 326149079040 + (v23 * 652298158080 + (v24 * 1304596316160 + (v25 * 2609192632320 + (v26 * 5218385264640))))))))))))))))))))))))))) / 2609192632320 % 2 = v25 := by omega
+    (h0 : v0 < 2) (h1 : v1 < 8) (h2 : v2 < 20) (h3 : v3 < 2) (h4 : v4 < 3) (h5 : v5 < 2) (h6 : v6 < 2) (h7 : v7 < 2) (h8 : v8 < 4) (h9 : v9 < 4) (h10 : v10 < 4) (h11 : v11 < 2) (h12 : v12 < 20) (h13 : v13 < 3) (h14 : v14 < 4) (h15 : v15 < 2) (h16 : v16 < 2) (h17 : v17 < 6) (h18 : v18 < 2) (h19 : v19 < 6) (h20 : v20 < 2) (h21 : v21 < 2) (h22 : v22 < 2) (h23 : v23 < 2) (h24 : v24 < 2) (h25 : v25 < 2) (h26 : v26 < 3) :
+    (v0 + (v1 * 2 + (v2 * 16 + (v3 * 320 + (v4 * 640 + (v5 * 1920 + (v6 * 3840 + (v7 * 7680 + (v8 * 15360 + (v9 * 61440 + (v10 * 245760 + (v11 * 983040 + (v12 * 1966080 + (v13 * 39321600 + (v14 * 117964800 + (v15 * 471859200 + (v16 * 943718400 + (v17 * 1887436800 + (v18 * 11324620800 + (v19 * 22649241600 + (v20 * 135895449600 + (v21 * 271790899200 + (v22 * 543581798400 + (v23 * 1087163596800 + (v24 * 2174327193600 + (v25 * 4348654387200 + (v26 * 8697308774400))))))))))))))))))))))))))) / 4348654387200 % 2 = v25 := by omega
 set_option linter.unusedVariables false in
 theorem fld26 (v0 v1 v2 v3 v4 v5 v6 v7 v8 v9 v10 v11 v12 v13 v14 v15 v16 v17 v18 v19 v20 v21 v22 v23 v24 v25 v26 : Nat)
-    (h0 : v0 < 2) (h1 : v1 < 8) (h2 : v2 < 12) (h3 : v3 < 2) (h4 : v4 < 3) (h5 : v5 < 2) (h6 : v6 < 2) (h7 : v7 < 2) (h8 : v8 < 4) (h9 : v9 < 4) (h10 : v10 < 4) (h11 : v11 < 2) (h12 : v12 < 20) (h13 : v13 < 3) (h14 : v14 < 4) (h15 : v15 < 2) (h16 : v16 < 2) (h17 : v17 < 6) (h18 : v18 < 2) (h19 : v19 < 6) (h20 : v20 < 2) (h21 : v21 < 2) (h22 : v22 < 2) (h23 : v23 < 2) (h24 : v24 < 2) (h25 : v25 < 2) (h26 : v26 < 3) :
-    (v0 + (v1 * 2 + (v2 * 16 + (v3 * 192 + (v4 * 384 + (v5 * 1152 + (v6 * 2304 + (v7 * 4608 + (v8 * 9216 + (v9 * 36864 + (v10 * 147456 + (v11 * 589824 + (v12 * 1179648 + (v13 * 23592960 + (v14 * 70778880 + (v15 * 283115520 + (v16 * 566231040 + (v17 * 1132462080 + (v18 * 6794772480 + (v19 * 13589544960 + (v20 * 81537269760 + (v21 * 163074539520 + (v22 * 326149079040 + (v23 * 652298158080 + (v24 * 1304596316160 + (v25 * 2609192632320 + (v26 * 5218385264640))))))))))))))))))))))))))) / 5218385264640 % 3 = v26 := by omega
+    (h0 : v0 < 2) (h1 : v1 < 8) (h2 : v2 < 20) (h3 : v3 < 2) (h4 : v4 < 3) (h5 : v5 < 2) (h6 : v6 < 2) (h7 : v7 < 2) (h8 : v8 < 4) (h9 : v9 < 4) (h10 : v10 < 4) (h11 : v11 < 2) (h12 : v12 < 20) (h13 : v13 < 3) (h14 : v14 < 4) (h15 : v15 < 2) (h16 : v16 < 2) (h17 : v17 < 6) (h18 : v18 < 2) (h19 : v19 < 6) (h20 : v20 < 2) (h21 : v21 < 2) (h22 : v22 < 2) (h23 : v23 < 2) (h24 : v24 < 2) (h25 : v25 < 2) (h26 : v26 < 3) :
+    (v0 + (v1 * 2 + (v2 * 16 + (v3 * 320 + (v4 * 640 + (v5 * 1920 + (v6 * 3840 + (v7 * 7680 + (v8 * 15360 + (v9 * 61440 + (v10 * 245760 + (v11 * 983040 + (v12 * 1966080 + (v13 * 39321600 + (v14 * 117964800 + (v15 * 471859200 + (v16 * 943718400 + (v17 * 1887436800 + (v18 * 11324620800 + (v19 * 22649241600 + (v20 * 135895449600 + (v21 * 271790899200 + (v22 * 543581798400 + (v23 * 1087163596800 + (v24 * 2174327193600 + (v25 * 4348654387200 + (v26 * 8697308774400))))))))))))))))))))))))))) / 8697308774400 % 3 = v26 := by omega
 
 theorem roundtrip (s : St) (h : wf s = true) : decode (code s) = s := by
   obtain ⟨has, rp, wp, closed, cause, txNil, txClosed, netClosed, errCh, pend, infl, tainted, kp, kres, retry, kctx, cclosed, cp, cref, ntx, clean, born, raced, stale, reused, overflow, panic⟩ := s
